@@ -2,22 +2,27 @@
 from __future__ import annotations
 
 import ast
+import os
 import struct
 
 from ..core import Ctx
-from ..match import Fact, arg, call_name, calls, expr_context_facts, fact_of, facts_at, local_defs, single_def, stores
-from ..model import AnalysisError, FuncInfo, ancestors, chain, const_value, enclosing_stmt, norm, parent, set_parents, strip_cast, walk_no_nested
+from ..match import Fact, arg, call_name, calls, expr_context_facts, fact_of, facts_at, is_param, local_defs, stores
+from ..model import NOCONST as _NOCONST
+from ..model import AnalysisError, FuncInfo, Repo, ancestors, chain, const_value, enclosing_stmt, norm, parent, set_parents, strip_cast, walk_no_nested
 
 LEVEL = "other"
 EXPLANATION = (
-    "Insertion discipline as dominance facts: in gather_token both keeping a token in the waiting area and appending it "
-    "are dominated by a truthy token.verify(self.public_key); appending additionally requires the parent to be the "
-    "genesis hash or a contained token and the token not to be present yet; elements is written only by _append, whose "
-    "callers are add/add_by_hash (own key) and _append_chain_reaction_token (called only from gather_token), plus the "
-    "database reload in PseudonymManager; the wake-up re-offers every waiting child of the appended token (no early exit) "
-    "so forks do not depend on arrival order; the waiting area is bounded; content is attached only under a hash match; "
-    "wire chunk size equals the token struct size and every chunk is offered to gather_token unconditionally; "
-    "verify/get_root_path check every step's signature. Permutations are not enumerated."
+    "Every function is analysed through a behaviour-equivalent *view* built from the source as written: private helpers "
+    "(also generator helpers and dispatch tables) are inlined, decision values are propagated into the code that acts on "
+    "them, constant tests are folded.  On the view of gather_token: keeping a token in the waiting area and appending it "
+    "are dominated by a truthy token.verify(self.public_key); appending additionally requires the parent to be the genesis "
+    "hash or a contained token and the token not to be present yet, and is always followed by a complete scan of the waiting "
+    "area that re-offers every waiting child through gather_token (no early exit, woken tokens leave the waiting area) so "
+    "forks do not depend on arrival order; elements is written only from add/add_by_hash (own key), gather_token and the "
+    "database reload in PseudonymManager; the waiting area is bounded; content is attached only under a hash match (decided "
+    "per None-ness case of Token.__init__ by partial evaluation); wire chunk size equals the token struct size and every "
+    "chunk is offered to gather_token unconditionally; verify/get_root_path check every step's signature; token equality "
+    "covers the signature. Permutations are not enumerated."
 )
 
 TR = "ipv8/attestation/tokentree/tree.py"
@@ -25,6 +30,7 @@ TK = "ipv8/attestation/tokentree/token.py"
 SO = "ipv8/attestation/signed_object.py"
 
 _COMPS = (ast.ListComp, ast.SetComp, ast.DictComp, ast.GeneratorExp)
+_LOOPS = (ast.For, ast.AsyncFor, ast.While)
 _WRAPPERS = ("list", "tuple", "sorted", "reversed", "set", "frozenset")
 
 
@@ -33,23 +39,107 @@ def _clone(e: ast.AST) -> ast.AST:
     return ast.parse(ast.unparse(e), mode="eval").body
 
 
+_CFGS: dict[int, tuple] = {}
+
+
+def _cfg_of(fi: FuncInfo):
+    from ..cfg import CFG
+    hit = _CFGS.get(id(fi.node))
+    if hit is None or hit[0] is not fi.node:
+        if len(_CFGS) > 400:
+            _CFGS.clear()
+        hit = _CFGS[id(fi.node)] = (fi.node, CFG(fi.node))
+    return hit[1]
+
+
+def _reaching(fi: FuncInfo, n: ast.Name) -> list[tuple[ast.stmt, ast.AST | None, int | None]] | None:
+    """The definitions of local `n.id` that reach this read of it, decided on the control-flow graph (None: a parameter, no
+    definition at all, or a path on which the name is not assigned)."""
+    if is_param(fi, n.id):
+        return None
+    ds = local_defs(fi, n.id)
+    if not ds:
+        return None
+    if len(ds) == 1:
+        return list(ds)
+    try:
+        cfg = _cfg_of(fi)
+    except AnalysisError:
+        return None
+    use = cfg.nodes_for(n)
+    if not use:
+        return None
+    dnodes = {i: cfg.nodes_for(s) for i, (s, v, k) in enumerate(ds)}
+    alld = [x for ns in dnodes.values() for x in ns]
+    reaching = []
+    for i, ns in dnodes.items():
+        firsts = [v for d in ns for v, lab in d.succ if lab != "exc"]
+        for u in use:
+            cut = [x for x in alld if x is not u]
+            if u in firsts or u in cfg.reach([f for f in firsts if f not in cut], cut_nodes=cut):
+                reaching.append(i)
+                break
+    if not reaching or any(u in cfg.reach(cut_nodes=[x for x in alld if x is not u]) and u not in alld for u in use):
+        return None                      # also reachable without any definition
+    return [ds[i] for i in reaching]
+
+
+def _def_value(fi: FuncInfo, n: ast.Name) -> ast.AST | None:
+    """
+    The expression bound to local `n.id` by the ONE definition that reaches this read of it (None for parameters, loop
+    targets, several reaching definitions, tuple unpacking).  A name assigned exactly once is the common case; a name
+    assigned in several branches is resolved on the control-flow graph.
+    """
+    r = _reaching(fi, n)
+    if r is None or len(r) != 1:
+        return None
+    s, v, k = r[0]
+    return v if v is not None and k is None else None
+
+
 def _expand(fi: FuncInfo, e: ast.AST | None, depth: int = 4) -> ast.AST | None:
-    """Copy of e in which every single-assignment local is replaced by its defining expression (hoisted locals undone)."""
+    """Copy of e in which every local with one reaching definition is replaced by its defining expression (hoisted locals undone)."""
     if e is None:
         return None
 
-    class T(ast.NodeTransformer):
-        def __init__(self, d: int) -> None:
-            self.d = d
-
-        def visit_Name(self, n: ast.Name):  # noqa: N802
-            if isinstance(n.ctx, ast.Load) and self.d > 0:
-                d = single_def(fi, n.id)
-                if d is not None and d[1] is None and not isinstance(strip_cast(d[0]), (*_COMPS, ast.Lambda)):
-                    return T(self.d - 1).visit(_clone(strip_cast(d[0])))
+    def go(n, d: int):
+        if isinstance(n, list):
+            return [go(x, d) for x in n]
+        if not isinstance(n, ast.AST):
             return n
+        if isinstance(n, ast.Name) and isinstance(n.ctx, ast.Load) and d > 0:
+            v = _def_value(fi, n)
+            if v is not None and not isinstance(strip_cast(v), (*_COMPS, ast.Lambda)):
+                return go(strip_cast(v), d - 1)
+        if isinstance(n, (ast.expr_context, ast.operator, ast.unaryop, ast.boolop, ast.cmpop)):
+            return n
+        new = type(n)()
+        for f in n._fields:
+            if hasattr(n, f):
+                setattr(new, f, go(getattr(n, f), d))
+        for a in n._attributes:
+            if hasattr(n, a):
+                setattr(new, a, getattr(n, a))
+        return new
 
-    return T(depth).visit(_clone(strip_cast(e)))
+    return go(strip_cast(e), depth)
+
+
+def _expand_text(fi: FuncInfo, e: ast.AST) -> ast.AST:
+    """_expand for an expression that was put together by a rule (its names are looked up as single-assignment locals only)"""
+    def go(n, d: int):
+        if isinstance(n, ast.Name) and isinstance(n.ctx, ast.Load) and d > 0 and not is_param(fi, n.id):
+            ds = local_defs(fi, n.id)
+            if len(ds) == 1 and ds[0][1] is not None and ds[0][2] is None and not isinstance(strip_cast(ds[0][1]), (*_COMPS, ast.Lambda)):
+                return go(_clone(strip_cast(ds[0][1])), d - 1)
+            return n
+        for f, val in ast.iter_fields(n):
+            if isinstance(val, ast.AST):
+                setattr(n, f, go(val, d))
+            elif isinstance(val, list):
+                setattr(n, f, [go(x, d) if isinstance(x, ast.AST) else x for x in val])
+        return n
+    return go(_clone(strip_cast(e)), 4)
 
 
 def _x(fi: FuncInfo, e: ast.AST | None) -> str | None:
@@ -67,7 +157,27 @@ def _sha3_arg(e: ast.AST | None) -> ast.AST | None:
         inner = e.func.value
         if isinstance(inner, ast.Call) and (chain(inner.func) or "").split(".")[-1] == "sha3_256" and len(inner.args) == 1:
             return inner.args[0]
+        if isinstance(inner, ast.Call) and chain(inner.func) == "hashlib.new" and len(inner.args) == 2 and const_value(inner.args[0]) == "sha3_256":
+            return inner.args[1]
     return None
+
+
+def _concat(e: ast.AST | None) -> str | None:
+    """`a + b + c` / `b"".join((a, b, c))` / `b"".join([a, b, c])` as the canonical text `a + b + c`"""
+    if e is None:
+        return None
+    parts: list[str] = []
+
+    def go(x) -> bool:
+        x = strip_cast(x)
+        if isinstance(x, ast.BinOp) and isinstance(x.op, ast.Add):
+            return go(x.left) and go(x.right)
+        if isinstance(x, ast.Call) and isinstance(x.func, ast.Attribute) and x.func.attr == "join" and isinstance(x.func.value, ast.Constant) \
+                and x.func.value.value in (b"", "") and len(x.args) == 1 and isinstance(x.args[0], (ast.Tuple, ast.List)) and not x.keywords:
+            return all(go(y) for y in x.args[0].elts)
+        parts.append(norm(x))
+        return True
+    return " + ".join(parts) if go(e) and parts else None
 
 
 def _table_key(e: ast.AST | None, table: str) -> ast.AST | None:
@@ -99,9 +209,9 @@ def _facts(fi: FuncInfo, cfg, site) -> list[Fact]:
     for f in facts_at(cfg, site):
         out.append(f)
         if f.op == "truthy" and isinstance(f.left, ast.Name):
-            d = single_def(fi, f.left.id)
-            if d is not None and d[1] is None:
-                out.extend(_split(_expand(fi, d[0]), f.pos))
+            d = _def_value(fi, f.left)
+            if d is not None:
+                out.extend(_split(_expand(fi, d), f.pos))
     return out
 
 
@@ -121,38 +231,1527 @@ def _membership(fi: FuncInfo, f: Fact, table: str = "self.elements") -> tuple[st
 
 
 def _is_verify_call(fi: FuncInfo, e: ast.AST | None, receiver: str) -> bool:
-    """e (after undoing aliases) is `<receiver>.verify(self.public_key)`."""
-    e = _expand(fi, e)
-    return isinstance(e, ast.Call) and chain(e.func) == f"{receiver}.verify" and \
-        norm(arg(e, 0, "public_key")) == "self.public_key" and len(e.args) + len(e.keywords) == 1
+    """e (a flag local is followed to its definition) is `<receiver>.verify(self.public_key)`."""
+    e = strip_cast(e) if e is not None else None
+    for _ in range(3):
+        if isinstance(e, ast.Name):
+            d = _def_value(fi, e)
+            if d is None:
+                return False
+            e = strip_cast(d)
+    if not (isinstance(e, ast.Call) and isinstance(e.func, ast.Attribute) and e.func.attr == "verify"):
+        return False
+    recv = e.func.value
+    return (norm(recv) == receiver or _x(fi, recv) == receiver) and _x(fi, arg(e, 0, "public_key")) == "self.public_key" and len(e.args) + len(e.keywords) == 1
 
 
-# ------------------------------------------------------------------------------------ "parent is known" as path property
-class _ParentKnown:
-    """
-    Which outcomes of which conditions establish `tok.previous_token_hash == self.genesis_hash` or
-    `tok.previous_token_hash in self.elements`.  Works on atoms, boolean combinations, flag locals and (boolean) helper
-    methods of the same class that the normaliser did not inline.
-    """
+# ------------------------------------------------------------------------------------ deep views
+# A *view* of a function is a behaviour-equivalent copy of it in which calls to private helpers of the same class (or
+# module) are replaced by the helpers' bodies, decision values are propagated into the code that acts on them and
+# constant tests are folded away.  Every rewrite is a semantics-preserving program transformation (inlining of a
+# call with bound parameters, duplication of a continuation into the branches of an `if`, constant propagation,
+# folding of constant tests, removal of unreachable statements), so a dominance fact derived from the view is a fact
+# about the original function; a construct the transformer cannot handle exactly is left as it is.
+_SINGLETONS = (ast.expr_context, ast.operator, ast.unaryop, ast.boolop, ast.cmpop)
+_SCOPES = (ast.FunctionDef, ast.AsyncFunctionDef, ast.ClassDef, ast.Lambda)
+_EXHAUSTING = ("list", "tuple", "set", "frozenset", "sorted", "sum", "min", "max", "dict")
+_HOLE = "__c16_hole__"
 
-    def __init__(self, ctx: Ctx, fi: FuncInfo, tok: str, depth: int = 2) -> None:
-        self.ctx, self.fi, self.tok, self.depth = ctx, fi, tok, depth
-        self.kinds: set[str] = set()
-        self.opaque: dict[str, set[bool]] = {}      # helper calls on tok that could not be decided, per outcome
 
-    def atom(self, e: ast.AST) -> tuple[str, bool] | None:
-        """(kind, truthiness that establishes the fact) for an atomic test."""
-        prev = f"{self.tok}.previous_token_hash"
-        f = fact_of(e, True)
-        if f.op == "eq" and {_x(self.fi, f.left), _x(self.fi, f.right)} == {prev, "self.genesis_hash"}:
-            return "genesis", f.pos
-        m = _membership(self.fi, f)
-        if m is not None and m[0] == prev:
-            return "contained", m[1]
+def _cl(node):
+    """structural copy (positions kept) that also keeps the inlining marks of call nodes"""
+    if isinstance(node, list):
+        return [_cl(x) for x in node]
+    if not isinstance(node, ast.AST) or isinstance(node, _SINGLETONS):
+        return node
+    new = type(node)()
+    for f in node._fields:
+        if hasattr(node, f):
+            setattr(new, f, _cl(getattr(node, f)))
+    for a in node._attributes:
+        if hasattr(node, a):
+            setattr(new, a, getattr(node, a))
+    for a in ("_stk", "_noinl"):
+        if hasattr(node, a):
+            setattr(new, a, getattr(node, a))
+    return new
+
+
+def _walk_scope(nodes):
+    """nodes of a statement / expression (list), not entering nested def / class / lambda bodies"""
+    stack = list(reversed(nodes)) if isinstance(nodes, list) else [nodes]
+    while stack:
+        n = stack.pop()
+        yield n
+        for ch in ast.iter_child_nodes(n):
+            if not isinstance(ch, _SCOPES):
+                stack.append(ch)
+
+
+def _pure_simple(e: ast.AST) -> bool:
+    if isinstance(e, (ast.Name, ast.Constant)):
+        return True
+    if isinstance(e, ast.Attribute):
+        return _pure_simple(e.value)
+    if isinstance(e, ast.UnaryOp) and isinstance(e.op, ast.USub):
+        return isinstance(e.operand, ast.Constant)
+    if isinstance(e, ast.Tuple):
+        return all(_pure_simple(x) for x in e.elts)
+    return False
+
+
+def _is_constlike(e: ast.AST) -> bool:
+    """a value that can be propagated: literal constant, tuple of such, or an UPPER_CASE class / enum / module constant"""
+    if isinstance(e, ast.Constant):
+        return True
+    if isinstance(e, ast.UnaryOp) and isinstance(e.op, ast.USub) and isinstance(e.operand, ast.Constant):
+        return True
+    if isinstance(e, ast.Tuple):
+        return all(_is_constlike(x) for x in e.elts)
+    if isinstance(e, ast.Attribute) and e.attr.isupper() and _pure_simple(e):
+        return True
+    return isinstance(e, ast.Name) and e.id.isupper()
+
+
+def _stored_names(nodes) -> set[str]:
+    out: set[str] = set()
+    for x in _walk_scope(nodes):
+        if isinstance(x, ast.Name) and isinstance(x.ctx, (ast.Store, ast.Del)):
+            out.add(x.id)
+        elif isinstance(x, ast.ExceptHandler) and x.name:
+            out.add(x.name)
+        elif isinstance(x, (ast.FunctionDef, ast.AsyncFunctionDef, ast.ClassDef)):
+            out.add(x.name)
+    return out
+
+
+def _loaded_names(nodes) -> set[str]:
+    return {x.id for n in (nodes if isinstance(nodes, list) else [nodes]) for x in ast.walk(n) if isinstance(x, ast.Name) and isinstance(x.ctx, ast.Load)}
+
+
+class _Sub(ast.NodeTransformer):
+    """substitute loads of names by expressions / rename names; names rebound by a comprehension or lambda are shadowed there"""
+
+    def __init__(self, mapping: dict[str, ast.expr], rename: dict[str, str] | None = None, into_lambda: bool = True) -> None:
+        self.mapping, self.rename, self.into_lambda = mapping, rename or {}, into_lambda
+
+    def visit_Name(self, n: ast.Name):  # noqa: N802
+        if isinstance(n.ctx, ast.Load) and n.id in self.mapping:
+            return ast.copy_location(_cl(self.mapping[n.id]), n)
+        if n.id in self.rename:
+            n.id = self.rename[n.id]
+        return n
+
+    def visit_ExceptHandler(self, n: ast.ExceptHandler):  # noqa: N802
+        if n.name in self.rename:
+            n.name = self.rename[n.name]
+        return self.generic_visit(n)
+
+    def _shadowed(self, n, bound: set[str]):
+        hit = bound & set(self.mapping)
+        if not hit:
+            return self.generic_visit(n)
+        saved = self.mapping
+        self.mapping = {k: v for k, v in saved.items() if k not in hit}
+        try:
+            return self.generic_visit(n)
+        finally:
+            self.mapping = saved
+
+    def visit_Lambda(self, n: ast.Lambda):  # noqa: N802
+        a = n.args
+        if not self.into_lambda:
+            return n
+        return self._shadowed(n, {x.arg for x in a.posonlyargs + a.args + a.kwonlyargs} | {x.arg for x in (a.vararg, a.kwarg) if x})
+
+    def visit_FunctionDef(self, n: ast.FunctionDef):  # noqa: N802
+        if n.name in self.rename:
+            n.name = self.rename[n.name]
+        a = n.args
+        return self._shadowed(n, {x.arg for x in a.posonlyargs + a.args + a.kwonlyargs} | {x.arg for x in (a.vararg, a.kwarg) if x})
+
+    def _comp(self, n):
+        return self._shadowed(n, {x.id for g in n.generators for x in ast.walk(g.target) if isinstance(x, ast.Name)})
+
+    visit_ListComp = visit_SetComp = visit_DictComp = visit_GeneratorExp = _comp  # noqa: N815
+
+
+class _ReplaceNode(ast.NodeTransformer):
+    def __init__(self, old: ast.AST, new: ast.AST) -> None:
+        self.old, self.new = old, new
+
+    def visit(self, node):
+        if node is self.old:
+            return self.new
+        return self.generic_visit(node)
+
+
+def _always_ends(stmts: list) -> bool:
+    """the statement list never completes normally (every path returns / raises / continues / breaks)"""
+    for st in stmts:
+        if isinstance(st, (ast.Return, ast.Raise, ast.Continue, ast.Break)):
+            return True
+        if isinstance(st, ast.If) and st.orelse and _always_ends(st.body) and _always_ends(st.orelse):
+            return True
+        if isinstance(st, (ast.With, ast.AsyncWith)) and _always_ends(st.body):
+            return True
+    return False
+
+
+def _always_returns(stmts: list) -> bool:
+    for st in stmts:
+        if isinstance(st, (ast.Return, ast.Raise)):
+            return True
+        if isinstance(st, ast.If) and st.orelse and _always_returns(st.body) and _always_returns(st.orelse):
+            return True
+    return False
+
+
+def _has_return(stmts) -> bool:
+    return any(isinstance(x, ast.Return) for x in _walk_scope(stmts))
+
+
+def _n_stmts(stmts: list) -> int:
+    return sum(1 for x in _walk_scope(stmts) if isinstance(x, ast.stmt))
+
+
+class _NotExact(Exception):
+    """this construct cannot be rewritten exactly: leave it alone"""
+
+
+class _Deep:
+    """Builds the view of one function (see above)."""
+
+    MAX_REWRITES = 60
+    MAX_STMTS = 600
+
+    def __init__(self, repo, fi: FuncInfo, *, assume_none: tuple[str, ...] = (), assume_set: tuple[str, ...] = (), stop: tuple[str, ...] = ()) -> None:
+        self.repo, self.fi, self.cls, self.mod = repo, fi, fi.cls, fi.module
+        self.stop = set(stop) | {fi.name}
+        self.assume_none, self.nonnull = set(assume_none), set(assume_set)
+        self.fn = _cl(fi.node)
+        self.fn.decorator_list = []
+        self.fresh = 0
+        self.rewrites = 0
+        self.opaque: list[tuple[str, str]] = []          # (helper name, why it was not inlined)
+        self.inlined: list[FuncInfo] = []
+
+    # ---------------------------------------------------------------------------------------------- driver
+    def build(self) -> FuncInfo:
+        fn = self.fn
+        try:
+            from ..normalize import hoist_walrus          # `if (x := E) is None:` -> `x = E` / `if x is None:` (same evaluation order)
+            hoist_walrus(ast.Module(body=[fn], type_ignores=[]))
+        except ImportError:
+            pass
+        for x in ast.walk(fn):
+            if isinstance(x, ast.Call):
+                x._stk = ()
+        if self.assume_none and not (_stored_names(fn.body) & self.assume_none):
+            sub = _Sub({p: ast.Constant(None) for p in self.assume_none})
+            fn.body = [sub.visit(s) for s in fn.body]
+        self._simplify()
+        while self.rewrites < self.MAX_REWRITES and _n_stmts(fn.body) < self.MAX_STMTS:
+            if not self._rewrite_block_in(fn.body, fn):
+                break
+            self.rewrites += 1
+            self._simplify()
+        ast.fix_missing_locations(fn)
+        set_parents(fn)
+        fn._parent = getattr(self.fi.node, "_parent", None)
+        view = FuncInfo(self.fi.name, self.fi.qualname, fn, self.mod, self.cls)
+        view.opaque = self.opaque            # type: ignore[attr-defined]
+        view.inlined = self.inlined          # type: ignore[attr-defined]
+        view.origin = self.fi                # type: ignore[attr-defined]
+        return view
+
+    def _tmp(self, stem: str) -> str:
+        self.fresh += 1
+        return f"_{stem}{self.fresh}"
+
+    # ---------------------------------------------------------------------------------------------- helper lookup
+    def _helper(self, call: ast.AST):
+        """(FuncInfo, receiver expr | None) when `call` calls a private helper that may be inlined"""
+        if not isinstance(call, ast.Call) or getattr(call, "_noinl", False):
+            return None
+        f = call.func
+        h = recv = None
+        explicit = closure = False
+        if isinstance(f, ast.Attribute) and isinstance(f.value, ast.Name) and self.cls is not None:
+            if f.value.id in ("self", "cls"):
+                h = self.cls.lookup(f.attr)
+                recv = f.value
+            else:
+                c = self.repo.resolve_class_expr(self.mod, f.value)
+                if c is not None and (c is self.cls or c in self.cls.mro()):
+                    h = c.lookup(f.attr)
+                    explicit = True
+        elif isinstance(f, ast.Name):
+            h = self._closure(f.id)
+            if h is not None:
+                closure = True
+            else:
+                r = self.repo.resolve_name(self.mod, f.id)
+                if isinstance(r, FuncInfo) and r.module is self.mod and f.id not in _stored_names(self.fn.body) and f.id not in self.fi.params():
+                    h = r
+        if h is None or (not closure and not _is_private(h.name)):
+            return None
+        if h.name in self.stop or h.name in getattr(call, "_stk", ()):
+            return None
+        decs = h.decorator_names()
+        kind = "function" if h.cls is None else "static" if "staticmethod" in decs else "classmethod" if "classmethod" in decs else "method"
+        if any(d not in ("staticmethod", "classmethod") for d in decs):
+            return None
+        a = h.node.args
+        if a.vararg or a.kwarg or h.is_async:
+            return None
+        if any(isinstance(x, (ast.Global, ast.Nonlocal, ast.AsyncFunctionDef, ast.ClassDef)) for s in h.node.body for x in ast.walk(s)):
+            return None
+        if closure and any(isinstance(x, ast.FunctionDef) for s in h.node.body for x in ast.walk(s)):
+            return None
+        if any(isinstance(x, ast.Call) and isinstance(x.func, ast.Name) and x.func.id in ("super", "locals", "vars") for s in h.node.body for x in ast.walk(s)):
+            return None
+        if kind in ("static", "function"):
+            recv = None
+        elif explicit:
+            recv = f.value if kind == "classmethod" else None      # Class._m(self, x): the receiver is the first argument
+        return h, recv
+
+    def _closure(self, name: str) -> FuncInfo | None:
+        """a function defined (once) inside the viewed function, or a lambda bound (once) to a local: called like a helper;
+        its free variables are read at call time, exactly what the inlined statements do"""
+        defs = [ch for x in [self.fn, *_walk_scope(list(self.fn.body))] for ch in ast.iter_child_nodes(x)
+                if isinstance(ch, (ast.FunctionDef, ast.AsyncFunctionDef, ast.ClassDef)) and ch.name == name and ch is not self.fn]
+        binds = [x for x in _walk_scope(list(self.fn.body)) if isinstance(x, ast.Name) and x.id == name and isinstance(x.ctx, (ast.Store, ast.Del))]
+        if name in self.fi.params():
+            return None
+        if len(defs) == 1 and not binds and isinstance(defs[0], ast.FunctionDef) and not defs[0].decorator_list:
+            return FuncInfo(name, f"{self.fi.qualname}.{name}", defs[0], self.mod, None)
+        if not defs and len(binds) == 1:
+            st = next((x for x in _walk_scope(list(self.fn.body)) if isinstance(x, ast.Assign) and len(x.targets) == 1 and x.targets[0] is binds[0]), None)
+            if st is not None and isinstance(st.value, ast.Lambda):
+                node = ast.copy_location(ast.FunctionDef(name=name, args=st.value.args, body=[ast.copy_location(ast.Return(value=st.value.body), st)],
+                                                         decorator_list=[], returns=None, type_comment=None, type_params=[]), st)
+                return FuncInfo(name, f"{self.fi.qualname}.{name}", node, self.mod, None)
         return None
 
+    @staticmethod
+    def _is_generator(h: FuncInfo) -> bool:
+        return any(isinstance(x, (ast.Yield, ast.YieldFrom)) for x in _walk_scope(list(h.node.body)))
+
+    # ---------------------------------------------------------------------------------------------- evaluation order
+    def _first_helper_call(self, e: ast.AST | None):
+        """The helper call whose evaluation starts before anything impure in `e` has been evaluated (or None)."""
+        hit: list = []
+
+        def seq(parts) -> str:
+            for p in parts:
+                r = go(p)
+                if r != "pure":
+                    return r
+            return "pure"
+
+        def go(x) -> str:          # "pure" | "hit" | "stop"
+            if x is None or isinstance(x, (ast.Name, ast.Constant)):
+                return "pure"
+            if isinstance(x, ast.Attribute):
+                return go(x.value)
+            if isinstance(x, ast.Call):
+                if self._helper(x) is not None:
+                    hit.append(x)
+                    return "hit"
+                parts = [x.func] + [a.value if isinstance(a, ast.Starred) else a for a in x.args] + [k.value for k in x.keywords]
+                r = seq(parts)
+                if r != "pure":
+                    return r
+                if isinstance(x.func, ast.Name) and x.func.id in ("len", "isinstance", "bool"):
+                    return "pure"
+                return "stop"
+            if isinstance(x, ast.Subscript):
+                r = seq([x.value, x.slice])
+                return r if r != "pure" else "stop"
+            if isinstance(x, ast.Compare):
+                r = seq([x.left, x.comparators[0]])
+                return r if r != "pure" or len(x.comparators) == 1 else "stop"
+            if isinstance(x, ast.BinOp):
+                return seq([x.left, x.right])
+            if isinstance(x, ast.UnaryOp):
+                return go(x.operand)
+            if isinstance(x, ast.BoolOp):
+                r = go(x.values[0])
+                return r if r != "pure" else ("pure" if all(_pure_simple(v) for v in x.values[1:]) else "stop")
+            if isinstance(x, ast.IfExp):
+                r = go(x.test)
+                return r if r != "pure" else ("pure" if _pure_simple(x.body) and _pure_simple(x.orelse) else "stop")
+            if isinstance(x, (ast.Tuple, ast.List, ast.Set)):
+                return seq(x.elts)
+            if isinstance(x, ast.Starred):
+                return go(x.value)
+            if isinstance(x, ast.NamedExpr):
+                r = go(x.value)
+                return r if r != "pure" else "stop"
+            if isinstance(x, ast.Slice):
+                return seq([x.lower, x.upper, x.step])
+            if isinstance(x, (ast.ListComp, ast.SetComp, ast.DictComp)):
+                r = go(x.generators[0].iter)
+                return r if r == "hit" else "stop"
+            return "stop"
+
+        return hit[0] if go(e) == "hit" else None
+
+    @staticmethod
+    def _first_expr(st: ast.stmt):
+        """(field name, expression) evaluated first when the statement is executed"""
+        if isinstance(st, (ast.Expr, ast.Return)):
+            return "value", st.value
+        if isinstance(st, ast.Assign):
+            return "value", st.value
+        if isinstance(st, ast.AnnAssign) and st.value is not None:
+            return "value", st.value
+        if isinstance(st, ast.AugAssign) and isinstance(st.target, ast.Name):
+            return "value", st.value
+        if isinstance(st, (ast.If, ast.Assert)):
+            return "test", st.test
+        if isinstance(st, (ast.For, ast.AsyncFor)):
+            return "iter", st.iter
+        if isinstance(st, ast.Match):
+            return "subject", st.subject
+        return None, None
+
+    # ---------------------------------------------------------------------------------------------- rewriting
+    def _rewrite_block_in(self, block: list, owner) -> bool:
+        """perform ONE inlining somewhere below `block` (depth first, in statement order); True if something changed"""
+        for i, st in enumerate(block):
+            if isinstance(st, _SCOPES):
+                continue
+            # (1) single-expression helpers anywhere in the statement's own expressions
+            if self._expr_inline(st):
+                return True
+            # (1b) `return A(x) if c else B(x)` / `v = A(x) if c else B(x)`  ->  if c: ... else: ...   (same evaluation)
+            if isinstance(st, (ast.Return, ast.Assign, ast.Expr)) and isinstance(st.value, ast.IfExp) and \
+                    any(self._helper(x) is not None for arm in (st.value.body, st.value.orelse) for x in _walk_scope(arm)):
+                v = st.value
+                a, b = _cl(st), _cl(st)
+                a.value, b.value = v.body, v.orelse
+                block[i] = ast.copy_location(ast.If(test=v.test, body=[a], orelse=[b]), st)
+                return True
+            # (2) statement-level inlining of the first evaluated helper call
+            field, e = self._first_expr(st)
+            call = self._first_helper_call(e) if e is not None else None
+            if call is not None:
+                try:
+                    new = self._inline_stmt(block, i, st, field, call)
+                except _NotExact as why:
+                    new = None
+                    h = self._helper(call)
+                    self.opaque.append((h[0].name if h else "?", str(why)))
+                    call._noinl = True
+                if new is not None:
+                    block[i:] = new
+                    return True
+            # (3) nested blocks
+            for fld in ("body", "orelse", "finalbody"):
+                blk = getattr(st, fld, None)
+                if isinstance(blk, list) and blk and isinstance(blk[0], ast.stmt) and self._rewrite_block_in(blk, st):
+                    return True
+            if isinstance(st, ast.Try):
+                for hd in st.handlers:
+                    if self._rewrite_block_in(hd.body, hd):
+                        return True
+            if isinstance(st, ast.Match):
+                for c in st.cases:
+                    if self._rewrite_block_in(c.body, c):
+                        return True
+        return False
+
+    def _own_exprs(self, st: ast.stmt):
+        for field, val in ast.iter_fields(st):
+            if field in ("body", "orelse", "finalbody", "handlers", "cases"):
+                continue
+            if isinstance(val, ast.expr):
+                yield field, None, val
+            elif isinstance(val, list):
+                for k, v in enumerate(val):
+                    if isinstance(v, ast.expr):
+                        yield field, k, v
+                    elif isinstance(v, ast.withitem):
+                        yield field, k, v
+
+    def _expr_inline(self, st: ast.stmt) -> bool:
+        """`... self._h(a) ...` with `def _h(self, p): return E`  ->  `... E[p := a] ...`"""
+        for field, k, e in self._own_exprs(st):
+            root = e.context_expr if isinstance(e, ast.withitem) else e
+            for c in _walk_scope(root):
+                hp = self._helper(c)
+                if hp is None:
+                    continue
+                h, recv = hp
+                body = [s for s in h.node.body if not _is_doc(s)]
+                if len(body) != 1 or not isinstance(body[0], ast.Return) or body[0].value is None or self._is_generator(h):
+                    continue
+                try:
+                    pre, new = self._bind(h, c, recv, [ast.Return(value=body[0].value)], expr_mode=True)
+                except _NotExact:
+                    continue
+                val = new[0].value
+                self._mark(val, c, h)
+                if root is c:
+                    if isinstance(e, ast.withitem):
+                        e.context_expr = val
+                    elif k is None:
+                        setattr(st, field, val)
+                    else:
+                        getattr(st, field)[k] = val
+                else:
+                    _ReplaceNode(c, val).visit(root)
+                self.inlined.append(h)
+                return True
+        return False
+
+    def _mark(self, nodes, call: ast.Call, h: FuncInfo) -> None:
+        stk = (*getattr(call, "_stk", ()), h.name)
+        for n in (nodes if isinstance(nodes, list) else [nodes]):
+            for x in ast.walk(n):
+                if isinstance(x, ast.Call) and not hasattr(x, "_stk"):
+                    x._stk = stk
+
+    def _bind(self, h: FuncInfo, call: ast.Call, recv, body: list, expr_mode: bool = False):
+        """(prelude, body with the parameters bound to the arguments of `call`)"""
+        a = h.node.args
+        pos = [p.arg for p in a.posonlyargs + a.args]
+        kwonly = [p.arg for p in a.kwonlyargs]
+        if any(isinstance(x, ast.Starred) for x in call.args) or any(k.arg is None for k in call.keywords):
+            raise _NotExact("star arguments")
+        bound: dict[str, ast.expr] = {}
+        order: list[str] = []
+        args = list(call.args)
+        idx = 0
+        if recv is not None:
+            if not pos:
+                raise _NotExact("no receiver parameter")
+            bound[pos[0]] = recv
+            idx = 1
+        for x in args:
+            if idx >= len(pos):
+                raise _NotExact("too many arguments")
+            bound[pos[idx]] = x
+            order.append(pos[idx])
+            idx += 1
+        for k in call.keywords:
+            if k.arg not in pos + kwonly or k.arg in bound:
+                raise _NotExact("unknown keyword")
+            bound[k.arg] = k.value
+            order.append(k.arg)
+        for p, d in zip(pos[len(pos) - len(a.defaults):], a.defaults):
+            if p not in bound:
+                bound[p] = d
+                order.append(p)
+        for p, d in zip(kwonly, a.kw_defaults):
+            if d is not None and p not in bound:
+                bound[p] = d
+                order.append(p)
+        if set(bound) != set(pos + kwonly):
+            raise _NotExact("unbound parameter")
+        body = _cl(body)
+        for x in ast.walk(ast.Module(body=body, type_ignores=[])):
+            if isinstance(x, ast.Call) and hasattr(x, "_stk"):
+                del x._stk                 # marks are set afresh by _mark
+        stored = {x.id for s in body for x in ast.walk(s) if isinstance(x, ast.Name) and isinstance(x.ctx, (ast.Store, ast.Del))}
+        stored |= {x.name for s in body for x in ast.walk(s) if isinstance(x, ast.ExceptHandler) and x.name}
+        taken = {x.id for x in ast.walk(self.fn) if isinstance(x, ast.Name)} | set(self.fi.params())
+        mapping: dict[str, ast.expr] = {}
+        rename: dict[str, str] = {}
+        pre: list[ast.stmt] = []
+        uses: dict[str, int] = {}
+        lazy: set[str] = set()            # parameters read in a lazily / repeatedly evaluated position
+        for s_ in body:
+            for x in ast.walk(s_):
+                if isinstance(x, ast.Name) and isinstance(x.ctx, ast.Load):
+                    uses[x.id] = uses.get(x.id, 0) + 1
+                if isinstance(x, (ast.Lambda, ast.ListComp, ast.SetComp, ast.DictComp, ast.GeneratorExp, ast.IfExp, ast.BoolOp)):
+                    lazy |= {y.id for y in ast.walk(x) if isinstance(y, ast.Name)}
+
+        def local(name: str) -> str:
+            new = name
+            while new in taken or new in rename.values():
+                new = new + "_i"
+            taken.add(new)
+            return new
+        for p in order + [p for p in bound if p not in order]:
+            v = bound[p]
+            if expr_mode and p not in stored and not _pure_simple(v) and uses.get(p, 0) <= 1 and p not in lazy:
+                mapping[p] = v             # evaluated exactly once, where the parameter was read
+                continue
+            if p in stored or not _pure_simple(v):
+                new = local(p)
+                if new != p:
+                    rename[p] = new
+                pre.append(ast.copy_location(ast.Assign(targets=[ast.Name(id=new, ctx=ast.Store())], value=_cl(v)), call))
+            elif not (isinstance(v, ast.Name) and v.id == p):
+                mapping[p] = v
+        for name in sorted(stored - set(bound)):
+            if name in taken:
+                rename[name] = local(name)
+        if pre and expr_mode:
+            raise _NotExact("argument needs a local")
+        sub = _Sub(mapping, rename)
+        body = [sub.visit(s) for s in body]
+        return pre, body
+
+    def _tailify(self, stmts: list, make_ret) -> list:
+        """single-exit form: `return e` -> make_ret(e); statements after an early return move into the other branch"""
+        out: list = []
+        for i, st in enumerate(stmts):
+            rest = stmts[i + 1:]
+            if isinstance(st, ast.Return):
+                out.extend(make_ret(st.value, st))
+                return out
+            if not _has_return([st]):
+                out.append(st)
+                if isinstance(st, ast.Raise):
+                    return out
+                continue
+            if isinstance(st, ast.If):
+                b_ret, e_ret = _always_returns(st.body), _always_returns(st.orelse)
+                nb = self._tailify(st.body + ([] if b_ret else _cl(rest)), make_ret)
+                ne = self._tailify(st.orelse + ([] if e_ret else _cl(rest)), make_ret)
+                out.append(ast.copy_location(ast.If(test=st.test, body=nb or [ast.copy_location(ast.Pass(), st)], orelse=ne), st))
+                return out
+            if isinstance(st, (ast.With, ast.AsyncWith)) and not rest:
+                st.body = self._tailify(st.body, make_ret) or [ast.copy_location(ast.Pass(), st)]
+                out.append(st)
+                return out
+            raise _NotExact("return inside a loop / try")
+        return out
+
+    @staticmethod
+    def _split_ifexp_returns(stmts: list) -> list:
+        """`return a if c else b` -> `if c: return a` / `else: return b` (same evaluation)"""
+        out = []
+        for st in stmts:
+            if isinstance(st, ast.Return) and isinstance(st.value, ast.IfExp):
+                v = st.value
+                out.append(ast.copy_location(ast.If(test=v.test, body=_Deep._split_ifexp_returns([ast.copy_location(ast.Return(value=v.body), st)]),
+                                                     orelse=_Deep._split_ifexp_returns([ast.copy_location(ast.Return(value=v.orelse), st)])), st))
+                continue
+            for fld in ("body", "orelse"):
+                blk = getattr(st, fld, None)
+                if isinstance(st, (ast.If, ast.With)) and isinstance(blk, list) and blk and isinstance(blk[0], ast.stmt):
+                    setattr(st, fld, _Deep._split_ifexp_returns(blk))
+            out.append(st)
+        return out
+
+    def _inline_stmt(self, block: list, i: int, st: ast.stmt, field: str, call: ast.Call) -> list | None:
+        h, recv = self._helper(call)
+        rest = block[i + 1:]
+        body = [s for s in h.node.body if not _is_doc(s)] or [ast.Pass()]
+        if self._is_generator(h):
+            return self._inline_generator(block, i, st, field, call, h, recv, body)
+        pre, body = self._bind(h, call, recv, body)
+        self._mark(pre + body, call, h)
+        whole = getattr(st, field) is call
+        returns = [x for x in _walk_scope(body) if isinstance(x, ast.Return)]
+        # a copy of the statement with a placeholder where the call was
+        k = next(j for j, x in enumerate(ast.walk(st)) if x is call)
+        templ = _cl(st)
+        call2 = list(ast.walk(templ))[k]
+        ph = ast.copy_location(ast.Name(id=_HOLE, ctx=ast.Load()), call)
+        if whole:
+            setattr(templ, field, ph)
+        else:
+            _ReplaceNode(call2, ph).visit(getattr(templ, field))
+
+        def hole(value: ast.expr | None, at) -> list:
+            """the statement with the call replaced by the returned value"""
+            value = value if value is not None else ast.Constant(None)
+            if whole and isinstance(st, ast.Expr):
+                return [] if _pure_simple(value) else [ast.copy_location(ast.Expr(value=value), at)]
+            return [_Sub({_HOLE: value}).visit(_cl(templ))]
+
+        if not returns:
+            self.inlined.append(h)
+            return pre + body + hole(None, st) + rest
+        if not _always_returns(body):
+            body = body + [ast.copy_location(ast.Return(value=None), st)]
+        values = [r.value for r in returns]
+        decisive = any(v is None or _is_constlike(v) or (isinstance(v, ast.Tuple) and any(_is_constlike(x) for x in v.elts)) or
+                       (isinstance(v, ast.IfExp) and (_is_constlike(v.body) or _is_constlike(v.orelse))) for v in values)
+        push = isinstance(st, ast.Return) or (decisive and len(returns) + sum(isinstance(v, ast.IfExp) for v in values) > 1
+                                              and isinstance(st, (ast.Assign, ast.AnnAssign, ast.If, ast.Expr, ast.Match))
+                                              and (len(returns) + 1) * _n_stmts(rest) <= 240)
+        if push:
+            body = self._split_ifexp_returns(body)
+
+            def make_ret(value, at):
+                out = hole(value, at)
+                if isinstance(st, ast.Return):
+                    return out
+                return out + _cl(rest)
+            out = pre + self._tailify(body, make_ret)
+            self.inlined.append(h)
+            return out
+        # value mode
+        if len(returns) == 1 and isinstance(body[-1], ast.Return) and (body[-1].value is None or _pure_simple(body[-1].value)):
+            self.inlined.append(h)
+            return pre + body[:-1] + hole(body[-1].value, st) + rest
+        if whole and isinstance(st, ast.Assign) and len(st.targets) == 1 and isinstance(st.targets[0], ast.Name):
+            tgt = st.targets[0].id
+            out = self._tailify(body, lambda v, at: [ast.copy_location(ast.Assign(targets=[ast.Name(id=tgt, ctx=ast.Store())], value=v if v is not None else ast.Constant(None)), at)])
+            self.inlined.append(h)
+            return pre + out + rest
+        tmp = self._tmp("r")
+        out = self._tailify(body, lambda v, at: [ast.copy_location(ast.Assign(targets=[ast.Name(id=tmp, ctx=ast.Store())], value=v if v is not None else ast.Constant(None)), at)])
+        self.inlined.append(h)
+        return pre + out + hole(ast.Name(id=tmp, ctx=ast.Load()), st) + rest
+
+    def _inline_generator(self, block, i, st, field, call, h, recv, body) -> list | None:
+        if _has_return(body):
+            raise _NotExact("generator with return")
+        ys = [x for x in _walk_scope(body) if isinstance(x, (ast.Yield, ast.YieldFrom))]
+        stmts_y = [x for x in _walk_scope(body) if isinstance(x, ast.Expr) and isinstance(x.value, (ast.Yield, ast.YieldFrom))]
+        if len(ys) != len(stmts_y):
+            raise _NotExact("yield used as an expression")
+        rest = block[i + 1:]
+        pre, body = self._bind(h, call, recv, body)
+        self._mark(pre + body, call, h)
+
+        def replace_yields(stmts: list, make) -> list:
+            out = []
+            for s in stmts:
+                if isinstance(s, ast.Expr) and isinstance(s.value, (ast.Yield, ast.YieldFrom)):
+                    out.extend(make(s.value, s))
+                    continue
+                for fld in ("body", "orelse", "finalbody"):
+                    blk = getattr(s, fld, None)
+                    if isinstance(blk, list) and blk and isinstance(blk[0], ast.stmt):
+                        setattr(s, fld, replace_yields(blk, make))
+                if isinstance(s, ast.Try):
+                    for hd in s.handlers:
+                        hd.body = replace_yields(hd.body, make)
+                out.append(s)
+            return out
+
+        if isinstance(st, ast.For) and st.iter is call and not st.orelse:
+            # for x in self._gen(..): BODY   ->   the generator's statements with `yield e` replaced by `x = e; BODY`
+            if self._own_jumps(st.body):
+                raise _NotExact("break / continue in the consumer of a generator helper")
+
+            def make(y, at):
+                if isinstance(y, ast.YieldFrom):
+                    return [ast.copy_location(ast.For(target=_cl(st.target), iter=y.value, body=_cl(st.body), orelse=[]), at)]
+                return [ast.copy_location(ast.Assign(targets=[_cl(st.target)], value=y.value if y.value is not None else ast.Constant(None)), at)] + _cl(st.body)
+            self.inlined.append(h)
+            return pre + replace_yields(body, make) + rest
+        # consumed completely by list(...) / sorted(...) / a list comprehension ...: collect, then hand the list over
+        consumer = next((p for p in ast.walk(getattr(st, field)) if any(c is call for c in ast.iter_child_nodes(p))), None)
+        if isinstance(consumer, ast.comprehension):
+            comp = next(p for p in ast.walk(getattr(st, field)) if isinstance(p, (ast.ListComp, ast.SetComp, ast.DictComp, ast.GeneratorExp)) and consumer in p.generators)
+            ok = not isinstance(comp, ast.GeneratorExp) and comp.generators[0] is consumer and consumer.iter is call
+        elif isinstance(st, ast.For) and st.iter is call:
+            ok = False
+        else:
+            ok = isinstance(consumer, ast.Call) and len(consumer.args) >= 1 and consumer.args[0] is call and \
+                ((isinstance(consumer.func, ast.Name) and consumer.func.id in _EXHAUSTING) or (isinstance(consumer.func, ast.Attribute) and consumer.func.attr == "join"))
+        if not ok:
+            raise _NotExact("generator helper is not consumed completely at the call")
+        acc = self._tmp("g")
+
+        def make2(y, at):
+            meth = "extend" if isinstance(y, ast.YieldFrom) else "append"
+            return [ast.copy_location(ast.Expr(value=ast.Call(func=ast.Attribute(value=ast.Name(id=acc, ctx=ast.Load()), attr=meth, ctx=ast.Load()),
+                                                              args=[y.value if y.value is not None else ast.Constant(None)], keywords=[])), at)]
+        init = ast.copy_location(ast.Assign(targets=[ast.Name(id=acc, ctx=ast.Store())], value=ast.List(elts=[], ctx=ast.Load())), st)
+        _ReplaceNode(call, ast.copy_location(ast.Name(id=acc, ctx=ast.Load()), call)).visit(st)
+        self.inlined.append(h)
+        return pre + [init] + replace_yields(body, make2) + [st] + rest
+
+    @staticmethod
+    def _own_jumps(stmts: list) -> bool:
+        """a break / continue that belongs to the loop whose body is `stmts`"""
+        for st in stmts:
+            if isinstance(st, (ast.Break, ast.Continue)):
+                return True
+            if isinstance(st, (ast.For, ast.While, ast.AsyncFor)):
+                if _Deep._own_jumps(st.orelse):
+                    return True
+                continue
+            for fld in ("body", "orelse", "finalbody"):
+                blk = getattr(st, fld, None)
+                if isinstance(blk, list) and blk and isinstance(blk[0], ast.stmt) and _Deep._own_jumps(blk):
+                    return True
+            if isinstance(st, ast.Try) and any(_Deep._own_jumps(hd.body) for hd in st.handlers):
+                return True
+            if isinstance(st, ast.Match) and any(_Deep._own_jumps(c.body) for c in st.cases):
+                return True
+        return False
+
+    # ---------------------------------------------------------------------------------------------- simplification
+    def _simplify(self) -> None:
+        for _ in range(8):
+            self.changed = False
+            self.thread_budget = 6
+            body, _env = self._block(self.fn.body, {})
+            self.fn.body = body or [ast.copy_location(ast.Pass(), self.fn)]
+            if not self.changed:
+                break
+
+    # constant folding of expressions ----------------------------------------------------------------
+    def _const_of(self, e: ast.AST):
+        """Python value of a constant-like expression, or NOCONST"""
+        if isinstance(e, ast.Constant):
+            return e.value
+        if isinstance(e, ast.UnaryOp) and isinstance(e.op, ast.USub) and isinstance(e.operand, ast.Constant) and isinstance(e.operand.value, (int, float)):
+            return -e.operand.value
+        if isinstance(e, ast.Tuple):
+            vals = [self._const_of(x) for x in e.elts]
+            return _NOCONST if any(v is _NOCONST for v in vals) else tuple(vals)
+        if (isinstance(e, ast.Name) and e.id.isupper() and e.id not in self.locals) or (isinstance(e, ast.Attribute) and e.attr.isupper() and _pure_simple(e)):
+            try:
+                v = self.repo.resolve_const(self.mod, e, self.cls)
+            except Exception:  # noqa: BLE001
+                v = _NOCONST
+            if v is not _NOCONST and isinstance(v, (int, str, bytes, bool, float, tuple, type(None))):
+                return v
+        return _NOCONST
+
+    def _symbol(self, e: ast.AST) -> str | None:
+        """identity of an enum member / tag object that has no literal value"""
+        if isinstance(e, ast.Attribute) and e.attr.isupper() and _pure_simple(e) and self._const_of(e) is _NOCONST:
+            return chain(e)
+        return None
+
+    def _table(self, e: ast.AST):
+        """literal tuple / list / dict denoted by e (class-level table, instance table assigned once in __init__, literal)"""
+        if isinstance(e, (ast.Tuple, ast.List, ast.Dict)):
+            return e, None
+        if isinstance(e, ast.Attribute) and isinstance(e.value, ast.Name) and self.cls is not None:
+            owner = None
+            if e.value.id in ("self", "cls"):
+                owner = self.cls
+            else:
+                c = self.repo.resolve_class_expr(self.mod, e.value)
+                if c is not None and c in self.cls.mro():
+                    owner = c
+            if owner is None:
+                return None, None
+            v = owner.lookup_attr(e.attr)
+            if isinstance(v, (ast.Tuple, ast.List, ast.Dict)):
+                return v, next(k for k in owner.mro() if e.attr in k.attrs)
+            if v is None and e.value.id == "self":
+                sts = [s for m in self.cls.methods.values() for s, t in stores(m, "self." + e.attr)]
+                if len(sts) == 1 and isinstance(sts[0], (ast.Assign, ast.AnnAssign)) and isinstance(sts[0].value, (ast.Tuple, ast.List, ast.Dict)) \
+                        and self.repo.function_of(sts[0]) is not None and self.repo.function_of(sts[0]).name == "__init__":
+                    return sts[0].value, None
+        if isinstance(e, ast.Name) and e.id.isupper() and e.id not in self.locals:
+            r = self.repo.resolve_name(self.mod, e.id)
+            if isinstance(r, tuple) and r[0] == "const" and isinstance(r[2], (ast.Tuple, ast.List, ast.Dict)):
+                return r[2], None
+        return None, None
+
+    def _table_entry(self, entry: ast.AST, owner, at: ast.AST) -> ast.AST | None:
+        """an entry of a dispatch table as an expression that is valid at the use site"""
+        entry = _cl(entry)
+        if owner is not None and isinstance(entry, ast.Name) and entry.id in owner.methods:
+            # a function object stored in a class-level table: Class.table[i](self, x) == Class._m(self, x)
+            return ast.copy_location(ast.Attribute(value=ast.Name(id=owner.name, ctx=ast.Load()), attr=entry.id, ctx=ast.Load()), at)
+        if _pure_simple(entry) or (isinstance(entry, ast.Attribute) and _pure_simple(entry)):
+            if owner is not None and any(isinstance(x, ast.Name) and x.id not in ("self", "cls") and not x.id.isupper() for x in ast.walk(entry)):
+                return None
+            return ast.copy_location(entry, at)
+        return None
+
+    def _fold(self, e: ast.AST) -> ast.AST:
+        """bottom-up constant folding of one expression (tests on constants, lookups in literal tables)"""
+        me = self
+
+        class F(ast.NodeTransformer):
+            def visit_UnaryOp(self, n):  # noqa: N802
+                self.generic_visit(n)
+                if isinstance(n.op, ast.Not):
+                    t = me._truth(n.operand)
+                    if t is not None:
+                        me.changed = True
+                        return ast.copy_location(ast.Constant(not t), n)
+                return n
+
+            def visit_BoolOp(self, n):  # noqa: N802
+                self.generic_visit(n)
+                vals = []
+                is_and = isinstance(n.op, ast.And)
+                for v in n.values:
+                    t = me._truth(v)
+                    if t is None:
+                        vals.append(v)
+                    elif t != is_and:              # False in `and` / True in `or`: the value of the expression, later operands unevaluated
+                        vals.append(v)
+                        break
+                    elif v is n.values[-1]:
+                        vals.append(v)
+                if len(vals) != len(n.values):
+                    me.changed = True
+                if len(vals) == 1:
+                    return vals[0]
+                n.values = vals
+                return n
+
+            def visit_IfExp(self, n):  # noqa: N802
+                self.generic_visit(n)
+                t = me._truth(n.test)
+                if t is None:
+                    return n
+                me.changed = True
+                return n.body if t else n.orelse
+
+            def visit_Compare(self, n):  # noqa: N802
+                self.generic_visit(n)
+                if len(n.ops) != 1:
+                    return n
+                r = me._compare(n.left, n.ops[0], n.comparators[0])
+                if r is None:
+                    return n
+                me.changed = True
+                return ast.copy_location(ast.Constant(r), n)
+
+            def visit_BinOp(self, n):  # noqa: N802
+                self.generic_visit(n)
+                if isinstance(n.op, ast.Add) and isinstance(n.left, ast.Constant) and isinstance(n.right, ast.Constant) \
+                        and isinstance(n.left.value, str) and isinstance(n.right.value, str):
+                    me.changed = True
+                    return ast.copy_location(ast.Constant(n.left.value + n.right.value), n)
+                r = me._arith(n.left, n.op, n.right)
+                if r is not None:
+                    me.changed = True
+                    return ast.copy_location(ast.Constant(r), n)
+                return n
+
+            def visit_JoinedStr(self, n):  # noqa: N802
+                self.generic_visit(n)
+                parts = []
+                for v in n.values:
+                    if isinstance(v, ast.Constant) and isinstance(v.value, str):
+                        parts.append(v.value)
+                    elif isinstance(v, ast.FormattedValue) and v.conversion == -1 and v.format_spec is None and isinstance(v.value, ast.Constant) and isinstance(v.value.value, str):
+                        parts.append(v.value.value)
+                    else:
+                        return n
+                me.changed = True
+                return ast.copy_location(ast.Constant("".join(parts)), n)
+
+            def visit_Subscript(self, n):  # noqa: N802
+                self.generic_visit(n)
+                if not isinstance(n.ctx, ast.Load):
+                    return n
+                k = me._const_of(n.slice)
+                sym = me._symbol(n.slice)
+                if k is _NOCONST and sym is None:
+                    return n
+                r = me._lookup(n.value, k, sym, n)
+                if r is None:
+                    return n
+                me.changed = True
+                return r
+
+            def visit_Call(self, n):  # noqa: N802
+                self.generic_visit(n)
+                f = n.func
+                # TABLE.get(const[, default])
+                if isinstance(f, ast.Attribute) and f.attr == "get" and 1 <= len(n.args) <= 2 and not n.keywords:
+                    k = me._const_of(n.args[0])
+                    sym = me._symbol(n.args[0])
+                    if k is not _NOCONST or sym is not None:
+                        r = me._lookup(f.value, k, sym, n, default=n.args[1] if len(n.args) == 2 else ast.Constant(None))
+                        if r is not None:
+                            me.changed = True
+                            return r
+                # filter(pred, xs) -> (v for v in xs if pred(v));  map(fn, xs) -> (fn(v) for v in xs)   (both lazy, same evaluation)
+                if isinstance(f, ast.Name) and f.id in ("filter", "map") and len(n.args) == 2 and not n.keywords and f.id not in me.locals \
+                        and not any(isinstance(a, ast.Starred) for a in n.args):
+                    fn_, xs = n.args
+                    var = None
+                    if isinstance(fn_, ast.Lambda) and len(fn_.args.args) == 1 and not (fn_.args.posonlyargs or fn_.args.kwonlyargs or fn_.args.vararg or fn_.args.kwarg or fn_.args.defaults):
+                        var, app = fn_.args.args[0].arg, fn_.body
+                    elif _pure_simple(fn_) and not (isinstance(fn_, ast.Constant) and f.id == "map"):
+                        var = me._tmp("v")
+                        app = ast.Name(id=var, ctx=ast.Load()) if isinstance(fn_, ast.Constant) and fn_.value is None else \
+                            ast.Call(func=fn_, args=[ast.Name(id=var, ctx=ast.Load())], keywords=[])
+                        if isinstance(app, ast.Call):
+                            app._stk = getattr(n, "_stk", ())
+                    if var is not None:
+                        me.changed = True
+                        gen = ast.comprehension(target=ast.Name(id=var, ctx=ast.Store()), iter=xs, ifs=[app] if f.id == "filter" else [], is_async=0)
+                        elt = ast.Name(id=var, ctx=ast.Load()) if f.id == "filter" else app
+                        return ast.fix_missing_locations(ast.copy_location(ast.GeneratorExp(elt=elt, generators=[gen]), n))
+                # getattr(self, "name")
+                if isinstance(f, ast.Name) and f.id == "getattr" and len(n.args) == 2 and not n.keywords and isinstance(n.args[1], ast.Constant) \
+                        and isinstance(n.args[1].value, str) and n.args[1].value.isidentifier() and _pure_simple(n.args[0]):
+                    me.changed = True
+                    return ast.copy_location(ast.Attribute(value=n.args[0], attr=n.args[1].value, ctx=ast.Load()), n)
+                return n
+
+            def visit_Lambda(self, n):  # noqa: N802
+                return n
+        return F().visit(e)
+
+    @staticmethod
+    def _arith(left: ast.AST, op: ast.operator, right: ast.AST) -> int | None:
+        """small integer arithmetic on literal operands (state counters, bit flags)"""
+        if not (isinstance(left, ast.Constant) and isinstance(right, ast.Constant)):
+            return None
+        a, b = left.value, right.value
+        if type(a) is not int or type(b) is not int or abs(a) > 1 << 16 or abs(b) > 1 << 16:
+            return None
+        if isinstance(op, ast.Add):
+            return a + b
+        if isinstance(op, ast.Sub):
+            return a - b
+        if isinstance(op, ast.Mult):
+            return a * b
+        if isinstance(op, ast.BitOr):
+            return a | b
+        if isinstance(op, ast.BitAnd):
+            return a & b
+        return None
+
+    def _lookup(self, container: ast.AST, k, sym, at: ast.AST, default: ast.AST | None = None) -> ast.AST | None:
+        tab, owner = self._table(container)
+        if tab is None:
+            return None
+        if isinstance(tab, ast.Dict):
+            if any(x is None for x in tab.keys):
+                return None
+            for kk, vv in zip(tab.keys, tab.values):
+                ck, cs = self._const_of(kk), self._symbol(kk)
+                if ck is _NOCONST and cs is None:
+                    return None
+                if (sym is not None and cs == sym) or (sym is None and ck is not _NOCONST and type(ck) is type(k) and ck == k):
+                    return self._table_entry(vv, owner, at)
+            return _cl(default) if default is not None else None
+        if default is not None or sym is not None or not isinstance(k, int) or isinstance(k, bool) or not -len(tab.elts) <= k < len(tab.elts):
+            return None
+        if any(isinstance(x, ast.Starred) for x in tab.elts):
+            return None
+        return self._table_entry(tab.elts[k], owner, at)
+
+    def _truth(self, e: ast.AST) -> bool | None:
+        if isinstance(e, ast.Constant):
+            return bool(e.value)
+        if isinstance(e, (ast.Tuple, ast.List, ast.Dict, ast.Set)) and not isinstance(getattr(e, "ctx", None), ast.Store):
+            items = e.keys if isinstance(e, ast.Dict) else e.elts
+            if not items:
+                return False
+            return True if all(_pure_simple(x) for x in items if x is not None) and not any(isinstance(x, ast.Starred) for x in items) else None
+        return None
+
+    def _compare(self, left: ast.AST, op: ast.cmpop, right: ast.AST) -> bool | None:
+        if isinstance(op, (ast.Is, ast.IsNot)):
+            pos = isinstance(op, ast.Is)
+            for a, b in ((left, right), (right, left)):
+                if isinstance(b, ast.Constant) and b.value is None:
+                    if isinstance(a, ast.Constant):
+                        return (a.value is None) == pos
+                    if isinstance(a, ast.Name) and a.id in self.nonnull:
+                        return not pos
+                    if isinstance(a, (ast.Tuple, ast.List, ast.Dict, ast.Set, ast.JoinedStr, ast.ListComp, ast.DictComp, ast.SetComp, ast.Lambda)):
+                        return not pos
+            if isinstance(left, ast.Constant) and isinstance(right, ast.Constant) and all(isinstance(x.value, (bool, type(None))) for x in (left, right)):
+                return (left.value is right.value) == pos
+            sl, sr = self._symbol(left), self._symbol(right)
+            if sl is not None and sr is not None:
+                return self._same_symbol(left, right, sl, sr, pos)
+            return None
+        lv, rv = self._const_of(left), self._const_of(right)
+        if lv is not _NOCONST and rv is not _NOCONST:
+            try:
+                if isinstance(op, ast.Eq):
+                    return lv == rv
+                if isinstance(op, ast.NotEq):
+                    return lv != rv
+                if isinstance(op, ast.In):
+                    return lv in rv
+                if isinstance(op, ast.NotIn):
+                    return lv not in rv
+                if isinstance(op, ast.Lt):
+                    return lv < rv
+                if isinstance(op, ast.LtE):
+                    return lv <= rv
+                if isinstance(op, ast.Gt):
+                    return lv > rv
+                if isinstance(op, ast.GtE):
+                    return lv >= rv
+            except Exception:  # noqa: BLE001
+                return None
+            return None
+        if isinstance(op, (ast.Eq, ast.NotEq)):
+            sl, sr = self._symbol(left), self._symbol(right)
+            if sl is not None and sr is not None:
+                return self._same_symbol(left, right, sl, sr, isinstance(op, ast.Eq))
+        if isinstance(op, (ast.In, ast.NotIn)) and isinstance(right, (ast.Tuple, ast.List, ast.Set)):
+            sl = self._symbol(left)
+            syms = [self._symbol(x) for x in right.elts]
+            if sl is not None and all(s is not None for s in syms) and all(self._same_symbol(left, x, sl, s, True) is not None for x, s in zip(right.elts, syms)):
+                return any(self._same_symbol(left, x, sl, s, True) for x, s in zip(right.elts, syms)) == isinstance(op, ast.In)
+        return None
+
+    def _same_symbol(self, a: ast.AST, b: ast.AST, sa: str, sb: str, pos: bool) -> bool | None:
+        if sa == sb:
+            return pos
+        # two different members of one Enum class are different objects
+        if isinstance(a, ast.Attribute) and isinstance(b, ast.Attribute) and chain(a.value) == chain(b.value):
+            c = self.repo.resolve_class_expr(self.mod, a.value)
+            if c is not None and any("Enum" in n or "Flag" in n for n in c.all_base_names()):
+                va, vb = c.lookup_attr(a.attr), c.lookup_attr(b.attr)
+                if va is not None and vb is not None and norm(va) != norm(vb) or (va is not None and vb is not None and isinstance(va, ast.Call)):
+                    return not pos
+        return None
+
+    # constant propagation over statements ----------------------------------------------------------------
+    @property
+    def locals(self) -> set[str]:
+        return _stored_names(self.fn.body) | set(self.fi.params())
+
+    def _ex(self, e, env: dict):
+        if e is None:
+            return None
+        if env:
+            live = {k: v for k, v in env.items()}
+            if any(isinstance(x, ast.Name) and isinstance(x.ctx, ast.Load) and x.id in live for x in ast.walk(e)):
+                e = _Sub(live, into_lambda=False).visit(e)
+                self.changed = True
+        return self._fold(e)
+
+    def _ex_target(self, t, env: dict):
+        """propagate into the expressions a store target evaluates (`alias[k] = v`, `alias.x = v`); the stored name itself is left alone"""
+        if isinstance(t, ast.Name):
+            return t
+        if env and any(isinstance(x, ast.Name) and isinstance(x.ctx, ast.Load) and x.id in env for x in ast.walk(t)):
+            t = _Sub(dict(env), into_lambda=False).visit(t)
+            self.changed = True
+        for x in ast.walk(t):
+            if isinstance(x, ast.Subscript):
+                x.slice = self._fold(x.slice)
+        return t
+
+    def _kill(self, env: dict, names: set[str]) -> None:
+        for n in names:
+            env.pop(n, None)
+        for k in [k for k, v in env.items() if any(isinstance(x, ast.Name) and x.id in names for x in ast.walk(v))]:
+            env.pop(k, None)
+
+    def _stable_chain(self, e: ast.AST) -> bool:
+        """`self.elements`, `token.previous_token_hash` ...: an attribute chain every attribute of which is only ever assigned in
+        constructors - a local bound to it is a second name for the same object / value"""
+        if not isinstance(e, ast.Attribute):
+            return False
+        while isinstance(e, ast.Attribute):
+            if not _stable_attr(self.repo, e.attr):
+                return False
+            e = e.value
+        return isinstance(e, ast.Name)
+
+    def _assign_env(self, env: dict, target: ast.AST, value: ast.AST | None) -> None:
+        if isinstance(target, ast.Name):
+            self._kill(env, {target.id})
+            if value is not None and ((_is_constlike(value) and not isinstance(value, ast.Name)) or self._stable_chain(value)) \
+                    and not any(isinstance(x, ast.Name) and x.id == target.id for x in ast.walk(value)):
+                env[target.id] = value
+        elif isinstance(target, (ast.Tuple, ast.List)) and isinstance(value, (ast.Tuple, ast.List)) and len(target.elts) == len(value.elts) \
+                and not any(isinstance(x, ast.Starred) for x in [*target.elts, *value.elts]):
+            for t, v in zip(target.elts, value.elts):
+                self._assign_env(env, t, v)
+        else:
+            self._kill(env, _stored_names([target]))
+
+    @staticmethod
+    def _merge(e1: dict | None, e2: dict | None) -> dict | None:
+        if e1 is None:
+            return e2
+        if e2 is None:
+            return e1
+        return {k: v for k, v in e1.items() if k in e2 and ast.dump(e2[k]) == ast.dump(v)}
+
+    def _block(self, stmts: list, env: dict):
+        """(simplified statements, constants known after the block or None when the block never completes normally)"""
+        out: list = []
+        stmts = list(stmts)
+        i = 0
+        while i < len(stmts):
+            st = stmts[i]
+            i += 1
+            if isinstance(st, _SCOPES):
+                if isinstance(st, ast.FunctionDef) and not any(isinstance(x, ast.Name) and x.id == st.name for x in ast.walk(self.fn)):
+                    self.changed = True          # a local function every call of which was inlined
+                    continue
+                out.append(st)
+                continue
+            if isinstance(st, ast.If):
+                st.test = self._ex(st.test, env)
+                t = self._truth(st.test)
+                if t is not None:
+                    self.changed = True
+                    stmts[i:i] = st.body if t else st.orelse
+                    continue
+                rest = stmts[i:]
+                b, e1 = self._block(st.body, dict(env))
+                o, e2 = self._block(st.orelse, dict(env))
+                # a decision taken in the branches and acted upon after the `if`: move the continuation into the branches
+                if e1 is not None and e2 is not None and rest and self.thread_budget > 0:
+                    differs = {k for k in set(e1) | set(e2) if not (k in e1 and k in e2 and ast.dump(e1[k]) == ast.dump(e2[k]))
+                               and any(k in e and _is_constlike(e[k]) for e in (e1, e2))}          # decision values only, not aliases
+                    if differs & _loaded_names(rest) and _n_stmts(rest) <= 60:
+                        self.thread_budget -= 1
+                        self.changed = True
+                        st.body, st.orelse = b + _cl(rest), o + rest
+                        b, e1 = self._block(st.body, dict(env))
+                        o, e2 = self._block(st.orelse, dict(env))
+                        st.body, st.orelse = b or [ast.copy_location(ast.Pass(), st)], o
+                        out.append(st)
+                        return out, self._merge(e1, e2)
+                st.body, st.orelse = b or [ast.copy_location(ast.Pass(), st)], o
+                out.append(st)
+                if e1 is None and e2 is None:
+                    if stmts[i:]:
+                        self.changed = True
+                    return out, None
+                env.clear()
+                env.update(self._merge(e1, e2))
+                continue
+            if isinstance(st, (ast.Assign, ast.AnnAssign)):
+                if st.value is not None:
+                    st.value = self._ex(st.value, env)
+                tgts = st.targets if isinstance(st, ast.Assign) else [st.target]
+                for k_, t in enumerate(tgts):
+                    t = self._ex_target(t, env)
+                    if isinstance(st, ast.Assign):
+                        st.targets[k_] = t
+                    else:
+                        st.target = t
+                if isinstance(st, ast.Assign) and len(tgts) == 1:
+                    self._assign_env(env, tgts[0], st.value)
+                elif isinstance(st, ast.AnnAssign) and st.value is not None:
+                    self._assign_env(env, st.target, st.value)
+                else:
+                    self._kill(env, _stored_names(tgts))
+                out.append(st)
+                continue
+            if isinstance(st, ast.AugAssign):
+                st.value = self._ex(st.value, env)
+                st.target = self._ex_target(st.target, env)
+                if isinstance(st.target, ast.Name) and st.target.id in env:
+                    r = self._arith(env[st.target.id], st.op, st.value)
+                    if r is not None:            # `n = 1` ... `n += 1`: the counter is 2 from here on
+                        self.changed = True
+                        st = ast.copy_location(ast.Assign(targets=[ast.Name(id=st.target.id, ctx=ast.Store())], value=ast.copy_location(ast.Constant(r), st)), st)
+                        self._assign_env(env, st.targets[0], st.value)
+                        out.append(st)
+                        continue
+                self._kill(env, _stored_names([st.target]))
+                out.append(st)
+                continue
+            if isinstance(st, ast.Expr):
+                st.value = self._ex(st.value, env)
+                out.append(st)
+                continue
+            if isinstance(st, ast.Return):
+                st.value = self._ex(st.value, env)
+                out.append(st)
+                if stmts[i:]:
+                    self.changed = True
+                return out, None
+            if isinstance(st, ast.Raise):
+                st.exc = self._ex(st.exc, env)
+                out.append(st)
+                if stmts[i:]:
+                    self.changed = True
+                return out, None
+            if isinstance(st, (ast.Break, ast.Continue)):
+                out.append(st)
+                if stmts[i:]:
+                    self.changed = True
+                return out, None
+            if isinstance(st, (ast.While, ast.For, ast.AsyncFor)):
+                if not isinstance(st, ast.While):
+                    st.iter = self._ex(st.iter, env)
+                self._kill(env, _stored_names([st]))
+                if isinstance(st, ast.While):
+                    st.test = self._ex(st.test, env)
+                    if self._truth(st.test) is False:
+                        self.changed = True
+                        stmts[i:i] = st.orelse
+                        continue
+                st.body = self._block(st.body, dict(env))[0] or [ast.copy_location(ast.Pass(), st)]
+                st.orelse = self._block(st.orelse, dict(env))[0]
+                out.append(st)
+                continue
+            if isinstance(st, (ast.With, ast.AsyncWith)):
+                for it in st.items:
+                    it.context_expr = self._ex(it.context_expr, env)
+                self._kill(env, _stored_names([st]))
+                st.body = self._block(st.body, dict(env))[0] or [ast.copy_location(ast.Pass(), st)]
+                out.append(st)
+                continue
+            if isinstance(st, ast.Try):
+                self._kill(env, _stored_names([st]))
+                st.body = self._block(st.body, dict(env))[0] or [ast.copy_location(ast.Pass(), st)]
+                for hd in st.handlers:
+                    hd.body = self._block(hd.body, dict(env))[0] or [ast.copy_location(ast.Pass(), st)]
+                st.orelse = self._block(st.orelse, dict(env))[0]
+                st.finalbody = self._block(st.finalbody, dict(env))[0]
+                out.append(st)
+                continue
+            if isinstance(st, ast.Match):
+                st.subject = self._ex(st.subject, env)
+                chosen = self._match_case(st)
+                if chosen is not None:
+                    self.changed = True
+                    stmts[i:i] = chosen
+                    continue
+                self._kill(env, _stored_names([st]))
+                for c in st.cases:
+                    c.body = self._block(c.body, dict(env))[0] or [ast.copy_location(ast.Pass(), st)]
+                out.append(st)
+                continue
+            if isinstance(st, ast.Assert):
+                st.test = self._ex(st.test, env)
+                out.append(st)
+                continue
+            if isinstance(st, ast.Delete):
+                st.targets = [self._ex_target(t, env) for t in st.targets]
+            self._kill(env, _stored_names([st]))
+            out.append(st)
+        return out, env
+
+    def _match_case(self, st: ast.Match) -> list | None:
+        """the body selected by a `match` on a constant subject (value / singleton / wildcard patterns only)"""
+        subj = self._const_of(st.subject)
+        sym = self._symbol(st.subject)
+        if subj is _NOCONST and sym is None:
+            return None
+
+        def matches(p) -> bool | None:
+            if isinstance(p, ast.MatchValue):
+                r = self._compare(st.subject, ast.Eq(), p.value)
+                return r
+            if isinstance(p, ast.MatchSingleton):
+                return None if subj is _NOCONST else subj is p.value
+            if isinstance(p, ast.MatchAs) and p.pattern is None and p.name is None:
+                return True
+            if isinstance(p, ast.MatchOr):
+                rs = [matches(x) for x in p.patterns]
+                if any(r is True for r in rs):
+                    return True
+                return None if any(r is None for r in rs) else False
+            return None
+        for c in st.cases:
+            if c.guard is not None:
+                return None
+            r = matches(c.pattern)
+            if r is None:
+                return None
+            if r:
+                return c.body
+        return []
+
+
+_STABLE: dict[int, tuple] = {}
+
+
+def _stable_attr(repo, attr: str) -> bool:
+    """every assignment to an attribute of this name in the repository sits in a constructor"""
+    hit = _STABLE.get(id(repo))
+    if hit is None or hit[0] is not repo:
+        unstable: set[str] = set()
+        for m in repo.modules.values():
+            for f in m.all_functions:
+                if f.name == "__init__":
+                    continue
+                for n in walk_no_nested(f.node):
+                    if isinstance(n, ast.Attribute) and isinstance(n.ctx, (ast.Store, ast.Del)):
+                        unstable.add(n.attr)
+            for n in m.tree.body:                      # module level / class level statements
+                for x in ([n] if not isinstance(n, ast.ClassDef) else n.body):
+                    if not isinstance(x, (ast.FunctionDef, ast.AsyncFunctionDef, ast.ClassDef)):
+                        unstable |= {y.attr for y in ast.walk(x) if isinstance(y, ast.Attribute) and isinstance(y.ctx, (ast.Store, ast.Del))}
+        _STABLE.clear()
+        hit = _STABLE[id(repo)] = (repo, unstable)
+    return attr not in hit[1]
+
+
+def _is_doc(st: ast.stmt) -> bool:
+    return isinstance(st, ast.Expr) and isinstance(st.value, ast.Constant) and isinstance(st.value.value, str)
+
+
+# ------------------------------------------------------------------------------------ views: cache and source access
+_VIEWS: dict[tuple, tuple] = {}
+_RAW: dict[int, tuple] = {}
+
+
+def _raw_repo(repo: Repo) -> Repo:
+    """
+    The repository model built from the source AS WRITTEN (no load-time normalisation): the views below do their own,
+    exact, inlining; nothing a rule of this module decides depends on the spelling of a local.
+    """
+    if not getattr(repo, "recover_names", False):
+        return repo
+    hit = _RAW.get(id(repo))
+    if hit is not None and hit[0] is repo:
+        return hit[1]
+    old = os.environ.get("SA_NO_NAME_RECOVERY")
+    os.environ["SA_NO_NAME_RECOVERY"] = "1"
+    try:
+        raw = Repo(repo.root, overrides=repo.overrides, extra_dirs=getattr(repo, "extra_dirs", ()))
+    finally:
+        if old is None:
+            del os.environ["SA_NO_NAME_RECOVERY"]
+        else:
+            os.environ["SA_NO_NAME_RECOVERY"] = old
+    _RAW.clear()
+    _RAW[id(repo)] = (repo, raw)
+    return raw
+
+
+def _view(ctx: Ctx, fi: FuncInfo, *, assume_none: tuple[str, ...] = (), assume_set: tuple[str, ...] = ()) -> FuncInfo:
+    key = (id(fi.node), assume_none, assume_set)
+    hit = _VIEWS.get(key)
+    if hit is not None and hit[0] is fi.node:
+        return hit[1]
+    if len(_VIEWS) > 200:
+        _VIEWS.clear()
+    try:
+        v = _Deep(ctx.repo, fi, assume_none=assume_none, assume_set=assume_set).build()
+    except AnalysisError:
+        raise
+    except (RecursionError, Exception) as e:  # noqa: BLE001
+        raise AnalysisError(f"undecided: no view of {fi.qualname} could be built ({type(e).__name__}: {e})") from e
+    _VIEWS[key] = (fi.node, v)
+    return v
+
+
+def _instance_tables(cls) -> dict[str, ast.AST]:
+    """`self.X = {...: self._m, ...}` assigned once in the class: the table literal per attribute (a dispatch table kept per instance)"""
+    found: dict[str, list] = {}
+    for c in cls.mro():
+        for m in c.methods.values():
+            for n in walk_no_nested(m.node):
+                if isinstance(n, (ast.Assign, ast.AnnAssign)):
+                    for t in (n.targets if isinstance(n, ast.Assign) else [n.target]):
+                        if isinstance(t, ast.Attribute) and isinstance(t.value, ast.Name) and t.value.id == "self":
+                            found.setdefault(t.attr, []).append(n.value)
+    return {k: v[0] for k, v in found.items() if len(v) == 1 and isinstance(v[0], (ast.Dict, ast.Tuple, ast.List))}
+
+
+def _private_targets(fi: FuncInfo, node: ast.AST | None = None) -> set[str]:
+    """Names of private methods of fi's class that fi mentions (called, passed on, or listed in a dispatch table it reads)."""
+    cls = fi.cls
+    if cls is None:
+        return set()
+    out: set[str] = set()
+    own = {c.name for c in cls.mro()} | {"self", "cls"}
+    itabs = _instance_tables(cls)
+    skip = {id(x) for v in itabs.values() for x in ast.walk(v)}          # filling a table is not a use of its entries
+
+    def in_table(tab: ast.AST) -> set[str]:
+        r = {x.id for x in ast.walk(tab) if isinstance(x, ast.Name) and _is_private(x.id) and cls.lookup(x.id) is not None}
+        r |= {x.attr for x in ast.walk(tab) if isinstance(x, ast.Attribute) and _is_private(x.attr) and cls.lookup(x.attr) is not None}
+        return r | {x.value for x in ast.walk(tab) if isinstance(x, ast.Constant) and isinstance(x.value, str) and _is_private(x.value) and cls.lookup(x.value) is not None}
+    for n in ast.walk(node if node is not None else fi.node):
+        if id(n) in skip:
+            continue
+        if isinstance(n, ast.Attribute) and isinstance(n.value, ast.Name) and n.value.id in own:
+            m = cls.lookup(n.attr)
+            if m is not None and _is_private(n.attr):
+                out.add(n.attr)
+            tab = cls.lookup_attr(n.attr)
+            if tab is not None:
+                out |= in_table(tab)
+            if n.attr in itabs and isinstance(n.ctx, ast.Load):
+                out |= in_table(itabs[n.attr])
+        elif isinstance(n, ast.Constant) and isinstance(n.value, str) and _is_private(n.value) and cls.lookup(n.value) is not None:
+            out.add(n.value)                # getattr(self, "_name")
+    return out
+
+
+def _is_private(name: str) -> bool:
+    return name.startswith("_") and not (name.startswith("__") and name.endswith("__"))
+
+
+def _private_closure(fi: FuncInfo) -> dict[str, FuncInfo]:
+    """Private methods of the class transitively reachable from fi through private methods only."""
+    out: dict[str, FuncInfo] = {}
+    todo = [fi]
+    while todo:
+        f = todo.pop()
+        for name in _private_targets(f):
+            if name not in out:
+                out[name] = f.cls.lookup(name) if f.cls is not None else None
+                if out[name] is not None:
+                    todo.append(out[name])
+    return {k: v for k, v in out.items() if v is not None}
+
+
+def _writes(fi_or_node, table: str) -> list[tuple[ast.AST, ast.AST | None, ast.AST | None, str]]:
+    """(site, key, value, kind) for every write to the mapping `table`: kind = set | del | bulk | rebind"""
+    node = fi_or_node.node if isinstance(fi_or_node, FuncInfo) else fi_or_node
+    out: list = []
+    for s, t in stores(node, table + "[]"):
+        if isinstance(s, ast.Delete):
+            out.append((s, t.slice, None, "del"))
+        elif isinstance(s, ast.Assign) and any(x is t for x in s.targets):
+            out.append((s, t.slice, s.value, "set"))
+        elif isinstance(s, ast.AnnAssign) and s.value is not None:
+            out.append((s, t.slice, s.value, "set"))
+        else:
+            out.append((s, t.slice, None, "set"))
+    for s, t in stores(node, table):
+        if isinstance(s, ast.AugAssign) and isinstance(s.op, ast.BitOr) and isinstance(s.value, ast.Dict) and all(k is not None for k in s.value.keys):
+            out.extend((s, k, v, "set") for k, v in zip(s.value.keys, s.value.values))
+        elif isinstance(s, ast.Delete):
+            out.append((s, None, None, "del"))
+        else:
+            out.append((s, None, getattr(s, "value", None), "bulk" if isinstance(s, ast.AugAssign) else "rebind"))
+    for c in calls(node):
+        f = c.func
+        if not (isinstance(f, ast.Attribute) and chain(f.value) == table):
+            continue
+        if f.attr == "__setitem__" and len(c.args) == 2:
+            out.append((c, c.args[0], c.args[1], "set"))
+        elif f.attr == "setdefault" and c.args:
+            out.append((c, c.args[0], c.args[1] if len(c.args) > 1 else ast.Constant(None), "set"))
+        elif f.attr == "update":
+            d = c.args[0] if len(c.args) == 1 and not c.keywords else None
+            if isinstance(d, ast.Dict) and d.keys and all(k is not None for k in d.keys):
+                out.extend((c, k, v, "set") for k, v in zip(d.keys, d.values))
+            else:
+                out.append((c, None, d, "bulk"))
+        elif f.attr in ("pop", "popitem", "clear", "__delitem__"):
+            out.append((c, c.args[0] if c.args and f.attr in ("pop", "__delitem__") else None, None, "del"))
+        elif f.attr in ("move_to_end",):
+            continue
+    return out
+
+
+# ------------------------------------------------------------------------------------ "truthy e implies P" as path property
+class _Establish:
+    """
+    Which outcomes of which conditions establish a property P.  `atom(e)` names the outcome of an atomic test that
+    establishes P; boolean combinations, flag locals and boolean helper methods that could not be inlined are followed.
+    """
+
+    def __init__(self, ctx: Ctx, fi: FuncInfo, depth: int = 2) -> None:
+        self.ctx, self.fi, self.depth = ctx, fi, depth
+        self.kinds: set[str] = set()
+        self.opaque: dict[str, set[bool]] = {}      # helper calls that could not be decided, per outcome
+
+    def atom(self, e: ast.AST) -> tuple[str, bool] | None:
+        raise NotImplementedError
+
+    def sub(self, h: FuncInfo, call: ast.Call) -> "_Establish | None":
+        return None
+
+    def interesting(self, call: ast.Call) -> bool:
+        return False
+
     def establishes(self, e: ast.AST, pol: bool) -> bool:
-        """Does `e` having truthiness `pol` imply that the parent of tok is the genesis hash or a contained token?"""
+        """Does `e` having truthiness `pol` imply P?"""
         e = strip_cast(e)
         if isinstance(e, ast.UnaryOp) and isinstance(e.op, ast.Not):
             return self.establishes(e.operand, not pol)
@@ -162,18 +1761,21 @@ class _ParentKnown:
         if isinstance(e, ast.Constant):
             return bool(e.value) != pol          # this outcome is impossible
         if isinstance(e, ast.IfExp):
-            return self.establishes(e.body, pol) and self.establishes(e.orelse, pol)
+            # the value has truthiness pol: either the test held and the first arm has it, or the test failed and the second arm has it
+            return (self.establishes(e.test, True) or self.establishes(e.body, pol)) and (self.establishes(e.test, False) or self.establishes(e.orelse, pol))
+        if isinstance(e, ast.Name) and e.id == "NotImplemented":
+            return True                          # hands the decision to the default comparison / the other operand: never a verdict of its own
         if isinstance(e, ast.Name):
-            d = single_def(self.fi, e.id)
+            d = _def_value(self.fi, e)
             # sound for a stale flag too: the token is not rebound, elements only grows, the genesis hash is fixed
-            return d is not None and d[1] is None and self.establishes(d[0], pol)
+            return d is not None and self.establishes(d, pol)
         a = self.atom(e)
         if a is not None:
             self.kinds.add(a[0])
             return a[1] == pol
         if isinstance(e, ast.Call) and self.depth > 0:
             r = self._helper(e, pol)
-            if not r and chain(e.func) and chain(e.func).startswith("self.") and any(_x(self.fi, a) == self.tok for a in [*e.args, *[k.value for k in e.keywords]]):
+            if not r and self.interesting(e):
                 self.opaque.setdefault(norm(e), set()).add(pol)
             return r
         return False
@@ -184,13 +1786,10 @@ class _ParentKnown:
         targets = self.ctx.repo.resolve_call(self.fi, call)
         if len(targets) != 1:
             return False
-        h = targets[0]
-        ps = h.params()[1:]
-        p = next((ps[i] for i, a in enumerate(call.args) if i < len(ps) and _x(self.fi, a) == self.tok), None) or \
-            next((k.arg for k in call.keywords if k.arg in ps and _x(self.fi, k.value) == self.tok), None)
-        if p is None or local_defs(h, p):
+        h = _view(self.ctx, targets[0])
+        sub = self.sub(h, call)
+        if sub is None:
             return False
-        sub = _ParentKnown(self.ctx, h, p, self.depth - 1)
         cfg = self.ctx.cfg(h)
         edge = sub.edge_pred(cfg)
         rets = [r for r in walk_no_nested(h.node) if isinstance(r, ast.Return)]
@@ -207,6 +1806,9 @@ class _ParentKnown:
         self.kinds |= sub.kinds
         return bool(rets)
 
+    def extra_edges(self, cfg) -> dict:
+        return {}
+
     def edge_pred(self, cfg):
         est: dict = {}
         for n in cfg.nodes:
@@ -214,76 +1816,147 @@ class _ParentKnown:
                 labs = {pol for pol in (True, False) if self.establishes(n.ast, pol)}
                 if labs:
                     est[n] = labs
-        return lambda u, v, lab: lab in est.get(u, ())
+        extra = self.extra_edges(cfg)
+        return lambda u, v, lab: lab in est.get(u, ()) or (u in extra and lab != "exc")
 
 
-# ------------------------------------------------------------------------------------ the raw writers of TokenTree.elements
-def _element_stores(fi: FuncInfo):
-    return [s for s, t in stores(fi, "self.elements[]") if not isinstance(s, ast.Delete)]
+class _ParentKnown(_Establish):
+    """P = `tok.previous_token_hash == self.genesis_hash` or `tok.previous_token_hash in self.elements`."""
+
+    def __init__(self, ctx: Ctx, fi: FuncInfo, tok: str, depth: int = 2) -> None:
+        super().__init__(ctx, fi, depth)
+        self.tok = tok
+
+    def atom(self, e: ast.AST) -> tuple[str, bool] | None:
+        prev = f"{self.tok}.previous_token_hash"
+        f = fact_of(e, True)
+        if f.op == "eq" and {_x(self.fi, f.left), _x(self.fi, f.right)} == {prev, "self.genesis_hash"}:
+            return "genesis", f.pos
+        m = _membership(self.fi, f)
+        if m is not None and m[0] == prev:
+            return "contained", m[1]
+        return None
+
+    def interesting(self, call: ast.Call) -> bool:
+        return bool(chain(call.func)) and chain(call.func).startswith("self.") and \
+            any(_x(self.fi, a) == self.tok for a in [*call.args, *[k.value for k in call.keywords]])
+
+    def sub(self, h: FuncInfo, call: ast.Call):
+        ps = h.params()[1:]
+        p = next((ps[i] for i, a in enumerate(call.args) if i < len(ps) and _x(self.fi, a) == self.tok), None) or \
+            next((k.arg for k in call.keywords if k.arg in ps and _x(self.fi, k.value) == self.tok), None)
+        if p is None or local_defs(h, p):
+            return None
+        return _ParentKnown(self.ctx, h, p, self.depth - 1)
+
+    def extra_edges(self, cfg) -> dict:
+        """a lookup `self.elements[tok.previous_token_hash]` that completes normally: the parent is contained (EAFP spelling)"""
+        out = {}
+        prev = f"{self.tok}.previous_token_hash"
+        for n in cfg.nodes:
+            if n.kind in ("stmt", "cond") and n.ast is not None and not isinstance(n.ast, (ast.For, ast.While, ast.With, ast.Try)):
+                for x in walk_no_nested(n.ast):
+                    if isinstance(x, ast.Subscript) and isinstance(x.ctx, ast.Load) and chain(x.value) == "self.elements" and _x(self.fi, x.slice) == prev \
+                            and not expr_context_facts(x):
+                        out[n] = True
+                        self.kinds.add("contained")
+        return out
 
 
-def _raw_appenders(ctx: Ctx) -> dict[str, FuncInfo]:
+# ------------------------------------------------------------------------------------ the gather view
+def _gather(ctx: Ctx) -> tuple[FuncInfo, set[str]]:
     """
-    Methods of TokenTree that put a token into `elements` without any check of their own: the ones that store into
-    self.elements directly and (transitively) the ones that hand a token to such a method.  add / add_by_hash (tokens
-    created with the own key) and gather_token (the checked entry) are the guarded entry points, not raw appenders.
+    (view of TokenTree.gather_token, names under which that code re-enters itself).  Every private helper is inlined, so
+    the view shows the checks, the append and the wake-up in one body; the recursive re-offer stays a call.
     """
-    tt = ctx.repo.cls("TokenTree", TR)
-    entry = {"add", "add_by_hash", "gather_token"}
-    raw = {n: f for n, f in tt.methods.items() if n not in entry and _element_stores(f)}
-    changed = True
-    while changed:
-        changed = False
-        for n, f in tt.methods.items():
-            if n in raw or n in entry:
+    gt = ctx.repo.method("TokenTree", "gather_token", TR)
+    names = {"gather_token"}
+    body = [s for s in gt.node.body if not _is_doc(s)]
+    # gather_token reduced to `return self._impl(token)`: the implementation re-enters itself under its own name
+    if len(body) == 1 and isinstance(body[0], ast.Return) and isinstance(body[0].value, ast.Call) and isinstance(body[0].value.func, ast.Attribute) and \
+            chain(body[0].value.func.value) == "self" and _is_private(body[0].value.func.attr) and [norm(a) for a in body[0].value.args] == gt.params()[1:] and not body[0].value.keywords:
+        names.add(body[0].value.func.attr)
+    view = _view(ctx, gt)
+    return view, names
+
+
+def _undecided_helpers(ctx: Ctx, view: FuncInfo, tables: tuple[str, ...], entry: set[str], tok: str | None = None, report: bool = False) -> None:
+    """A private helper that stayed a call in the view and touches the tables / re-enters: the view does not show everything."""
+    for c in calls(view):
+        f = c.func
+        if isinstance(f, ast.Attribute) and isinstance(f.value, ast.Name) and view.cls is not None and _is_private(f.attr) and f.attr not in entry:
+            h = view.cls.lookup(f.attr)
+            if h is None or (f.value.id not in ("self", "cls") and ctx.repo.resolve_class_expr(view.module, f.value) is None):
                 continue
-            if any(isinstance(c.func, ast.Attribute) and chain(c.func.value) == "self" and c.func.attr in raw for c in calls(f)):
-                raw[n] = f
-                changed = True
-    return raw
+            reach = {h.name: h, **_private_closure(h)}
+            for g in reach.values():
+                if any(_writes(g, t) for t in tables) or any(call_name(x) in entry for x in calls(g)):
+                    handed = [a for a in [*c.args, *[k.value for k in c.keywords]]]
+                    if tok is not None and handed and all(_x(view, a) != tok for a in handed) and any(_writes(g2, "self.elements") for g2 in reach.values()):
+                        # part of the append machinery is re-entered with something that is not the checked token
+                        if report:
+                            ctx.check(False, "verify-before-keep", view, c, "only the verified token is handed to the appending helpers",
+                                      f"`{norm(c)[:60]}` appends a token that did not pass gather_token's checks (signature, parent, duplicate)")
+                        break
+                    why = next((w for n, w in getattr(view, "opaque", []) if n == f.attr), "not inlinable")
+                    raise AnalysisError(f"undecided: {view.qualname} hands its work to `{norm(c)[:60]}` which could not be inlined exactly ({why})")
 
 
-def _append_sites(fi: FuncInfo, raw: dict[str, FuncInfo]) -> list[tuple[ast.AST, ast.AST | None, ast.AST | None]]:
-    """(site, stored token expr, key expr or None) for direct stores into self.elements and calls of raw appenders."""
-    out = []
-    for s in _element_stores(fi):
-        tgt = next(t for t in (s.targets if isinstance(s, ast.Assign) else [s.target]) if chain(t) == "self.elements[]")
-        out.append((s, getattr(s, "value", None), tgt.slice))
-    for c in calls(fi):
-        if isinstance(c.func, ast.Attribute) and chain(c.func.value) == "self" and c.func.attr in raw:
-            out.append((c, arg(c, 0, raw[c.func.attr].params()[1] if len(raw[c.func.attr].params()) > 1 else None), None))
-    return out
+def _absent_by_keyerror(fi: FuncInfo, site: ast.AST, key: str) -> bool:
+    """site lies in `except KeyError:` of a try whose body is nothing but the lookup `self.elements[key]`: the key is not contained"""
+    prev = site
+    for a in ancestors(site):
+        if isinstance(a, ast.ExceptHandler):
+            t = parent(a)
+            names = [chain(x) for x in (a.type.elts if isinstance(a.type, ast.Tuple) else [a.type])] if a.type is not None else []
+            if isinstance(t, ast.Try) and names == ["KeyError"] and len(t.body) == 1 and isinstance(t.body[0], (ast.Assign, ast.Expr, ast.AnnAssign)):
+                v = strip_cast(t.body[0].value) if t.body[0].value is not None else None
+                plain = not isinstance(t.body[0], ast.Assign) or all(isinstance(x, ast.Name) for x in t.body[0].targets)
+                if plain and isinstance(v, ast.Subscript) and chain(v.value) == "self.elements" and _x(fi, v.slice) == key:
+                    return True
+            return False
+        if a is fi.node:
+            return False
+        prev = a
+    return False
 
 
 # ------------------------------------------------------------------------------------ rules
 def rule_verify_before_keep(ctx: Ctx) -> None:
     repo = ctx.repo
-    fi = repo.method("TokenTree", "gather_token", TR)
+    fi, entry = _gather(ctx)
     cfg = ctx.cfg(fi)
-    tok = fi.params()[1]
-    raw = _raw_appenders(ctx)
+    tok = fi.params()[1] if len(fi.params()) > 1 else None
+    ctx.anchor(tok, "token parameter of TokenTree.gather_token")
+    _undecided_helpers(ctx, fi, ("self.elements", "self.unchained"), entry, tok, report=True)
     ctx.check(not local_defs(fi, tok), "verify-before-keep", fi, fi.node, "token parameter not rebound", "gather_token rebinds the offered token")
-    keep = [(s, t.slice) for s, t in stores(fi, "self.unchained[]") if isinstance(s, ast.Assign)]
-    app = [(s, v) for s, v, k in _append_sites(fi, raw)]
+    keep = [(s, k, v) for s, k, v, kind in _writes(fi, "self.unchained") if kind in ("set", "bulk", "rebind")]
+    app = [(s, k, v, kind) for s, k, v, kind in _writes(fi, "self.elements")]
     ctx.floor("verify-before-keep", len(keep) + len(app), 2)
-    for s, v in [*keep, *app]:
+    for s, k, v in keep:
         fs = _facts(fi, cfg, s)
         ok = any(f.op == "truthy" and f.pos and _is_verify_call(fi, f.left, tok) for f in fs)
-        tgt_ok = _x(fi, v) == tok
-        ctx.check(ok and tgt_ok, "verify-before-keep", fi, s, f"`{norm(s)[:50]}` dominated by token.verify(self.public_key)",
+        ctx.check(ok and _x(fi, k) == tok, "verify-before-keep", fi, s, f"`{norm(s)[:50]}` dominated by token.verify(self.public_key)",
                   "a token that is not signed by the tree's key can be kept (waiting area or tree)", [str(f) for f in fs])
     pk = _ParentKnown(ctx, fi, tok)
     edge = pk.edge_pred(cfg)
-    for s, v in app:
+    for s, k, v, kind in app:
+        fs = _facts(fi, cfg, s)
+        ok = any(f.op == "truthy" and f.pos and _is_verify_call(fi, f.left, tok) for f in fs)
+        own = kind == "set" and _x(fi, v) == tok and _x(fi, k) == f"{tok}.get_hash()"
+        ctx.check(ok and own, "verify-before-keep", fi, s, f"`{norm(s)[:50]}` dominated by token.verify(self.public_key)",
+                  "a token that is not signed by the tree's key can be kept (waiting area or tree)" if own else
+                  "something other than the verified token under its own hash is written into the tree", [str(f) for f in fs])
         dominated = all(cfg.must_pass_edges(n, edge) for n in cfg.nodes_for(s))
-        if not dominated and any(len(v) == 2 for v in pk.opaque.values()):
+        if not dominated and any(len(v2) == 2 for v2 in pk.opaque.values()):
             raise AnalysisError("undecided: gather_token tests the token with a helper whose meaning could not be derived: " +
-                                ", ".join(k for k, v in pk.opaque.items() if len(v) == 2))
+                                ", ".join(k2 for k2, v2 in pk.opaque.items() if len(v2) == 2))
         ctx.check(dominated and pk.kinds == {"genesis", "contained"}, "verify-before-keep", fi, s,
                   "token appended only if its parent is the genesis hash or a contained token",
                   "a dangling token (parent neither genesis nor contained) can be appended to the tree")
-        fs = _facts(fi, cfg, s)
-        fresh = any(_membership(fi, f) == (f"{tok}.get_hash()", False) for f in fs)
+        fresh = any(_membership(fi, f) == (f"{tok}.get_hash()", False) for f in fs) or _absent_by_keyerror(fi, s, f"{tok}.get_hash()")
+        if not fresh and any(isinstance(a, ast.ExceptHandler) or (isinstance(a, ast.Try) and any(_inside(s, o) for o in a.orelse)) for a in ancestors(s)):
+            raise AnalysisError("undecided: gather_token decides `already contained` through an exception handler")
         ctx.check(fresh, "verify-before-keep", fi, s, "token appended only if not contained yet", "a duplicate token replaces the contained one (and its content)",
                   [str(f) for f in fs])
     # bounded waiting area: the oldest waiting token is dropped only when the area exceeds its maximum size
@@ -301,92 +1974,175 @@ def rule_verify_before_keep(ctx: Ctx) -> None:
                 lt, rt = _x(fi, f.left), _x(fi, f.right)
                 exceeded = exceeded or (f.pos and lt == "self.unchained_max_size" and rt == "len(self.unchained)") or \
                     (not f.pos and lt == "len(self.unchained)" and rt in ("self.unchained_max_size + 1", "1 + self.unchained_max_size"))
+            if f.op == "lt" and not f.pos and _x(fi, f.left) == "len(self.unchained)" and _x(fi, f.right) == "self.unchained_max_size":
+                # `make room first`: sound only if the token is known not to wait yet (else a duplicate evicts an innocent token) and is then inserted
+                new_here = any(_membership(fi, f2_, "self.unchained") == (tok, False) for f2_ in _facts(fi, cfg, c))
+                knodes = [x for s_, k_, v_ in keep for x in cfg.nodes_for(s_)]
+                exceeded = exceeded or (new_here and bool(knodes) and all(cfg.always_followed_by(x, knodes) for x in cfg.nodes_for(c)))
         ok = ok and exceeded
     ctx.check(ok, "verify-before-keep", fi, fi.node, "waiting area bounded by unchained_max_size (oldest dropped)", "the waiting area for orphan tokens is unbounded")
     # content attach on duplicates goes through receive_content
+    tkc = repo.cls("Token", TK)
+    troots: dict[str, set[str]] = {}
+    for name, f in tkc.methods.items():
+        if not _is_private(name):
+            for p in _private_closure(f):
+                troots.setdefault(p, set()).add(name)
     for m, f2, a in repo.attribute_uses("content"):
         if isinstance(a.ctx, ast.Store) and f2 is not None and f2.module.relpath.startswith("ipv8/attestation/tokentree/"):
-            ctx.check(f2.qualname in ("Token.__init__", "Token.receive_content"), "content-binding", f2, enclosing_stmt(a),
+            inner = f2.cls is tkc and _is_private(f2.name) and bool(troots.get(f2.name)) and troots[f2.name] <= {"__init__", "receive_content"} and chain(a.value) == "self"
+            ctx.check(f2.qualname in ("Token.__init__", "Token.receive_content") or inner, "content-binding", f2, enclosing_stmt(a),
                       f"content assigned in {f2.qualname}", "token content is assigned outside __init__/receive_content (hash check bypassed)")
 
 
-def _prev_pointer_ok(f2: FuncInfo, e: ast.AST | None) -> bool:
+def _prev_pointer_ok(f2: FuncInfo, cfg, site: ast.AST, stored: ast.AST, made: ast.Call) -> bool:
     """The previous-pointer of a token created by add/add_by_hash: the genesis hash without `after`, else after.get_hash()."""
-    if e is None:
-        return False
     after = f2.params()[2] if len(f2.params()) > 2 else "after"
     values = {"self.genesis_hash", f"{after}.get_hash()"}
-    if isinstance(strip_cast(e), ast.Name) and not single_def(f2, e.id):
+    # the Token(...) call as written (its first argument may be a local assigned on several paths)
+    call = strip_cast(stored)
+    for _ in range(4):
+        if isinstance(call, ast.Name):
+            call = strip_cast(_def_value(f2, call) or ast.Constant(None))
+    raw = arg(call, 0, "previous_token_hash") if isinstance(call, ast.Call) else None
+    if raw is None:
+        return False
+    if isinstance(strip_cast(raw), ast.Name) and _def_value(f2, strip_cast(raw)) is None:
         # assigned on several paths (`p = genesis` / `if after: p = after.get_hash()`): every reaching value must be one of the two
-        ds = local_defs(f2, e.id)
+        ds = local_defs(f2, strip_cast(raw).id)
         return bool(ds) and all(v is not None and i is None and _x(f2, v) in values for s, v, i in ds) and \
             {_x(f2, v) for s, v, i in ds} == values
-    e = _expand(f2, e)
-    if not isinstance(e, ast.IfExp):
+    e = _expand(f2, raw)
+    none_tests = {f"not {after}": True, after: False, f"{after} is None": True, f"{after} is not None": False,
+                  f"None is {after}": True, f"None is not {after}": False}
+    if isinstance(e, ast.IfExp):
+        none_when_true = none_tests.get(norm(e.test))
+        if none_when_true is None:
+            return False
+        g, a = (e.body, e.orelse) if none_when_true else (e.orelse, e.body)
+        return norm(g) == "self.genesis_hash" and norm(a) == f"{after}.get_hash()"
+    # one Token(...) per branch: the branch condition decides which pointer is right
+    without_after = None
+    for f in _facts(f2, cfg, site):
+        if f.op == "is" and {norm(f.left), norm(f.right)} == {after, "None"}:
+            without_after = f.pos
+        elif f.op == "truthy" and norm(f.left) == after:
+            without_after = not f.pos
+    if without_after is None:
         return False
-    none_when_true = {f"not {after}": True, after: False, f"{after} is None": True, f"{after} is not None": False,
-                      f"None is {after}": True, f"None is not {after}": False}.get(norm(e.test))
-    if none_when_true is None:
-        return False
-    g, a = (e.body, e.orelse) if none_when_true else (e.orelse, e.body)
-    return norm(g) == "self.genesis_hash" and norm(a) == f"{after}.get_hash()"
+    return norm(e) == ("self.genesis_hash" if without_after else f"{after}.get_hash()")
+
+
+def _scans(fi: FuncInfo) -> list:
+    """loops / comprehension generators that traverse the whole waiting area"""
+    return [n for n in ast.walk(fi.node) if isinstance(n, (ast.For, ast.comprehension)) and chain(_unwrap_iter(fi, n.iter)) in ("self.unchained", "self.unchained.items()")]
 
 
 def rule_writers(ctx: Ctx) -> None:
     repo = ctx.repo
-    raw = _raw_appenders(ctx)
     tt = repo.cls("TokenTree", TR)
+    allowed_entries = {"add", "add_by_hash", "gather_token"}
+    # which entry points (public / special methods) reach which private method
+    roots: dict[str, set[str]] = {}
+    for name, f in tt.methods.items():
+        if not _is_private(name):
+            for p in _private_closure(f):
+                roots.setdefault(p, set()).add(name)
+    pm_roots: dict[str, set[str]] = {}
+    pmc = repo.try_cls("PseudonymManager", "ipv8/attestation/identity/manager.py")
+    for name, f in (pmc.methods.items() if pmc is not None else ()):
+        if not _is_private(name):
+            for p in _private_closure(f):
+                pm_roots.setdefault(p, set()).add(name)
     n = 0
     for m in repo.modules.values():
-        for node in ast.walk(m.tree):
-            if isinstance(node, ast.Subscript) and isinstance(node.ctx, (ast.Store, ast.Del)) and (chain(node.value) or "").endswith("elements") \
-                    and m.relpath.startswith("ipv8/attestation/"):
-                fi = repo.function_of(node)
-                n += 1
-                q = fi.qualname if fi else "?"
-                # inside TokenTree the raw appenders may store (their own token parameter: checked below) and so may
-                # add / add_by_hash (the token they created with the own key: checked below); a store in gather_token
-                # is an append that skipped the wake-up
-                in_raw = fi is not None and fi.cls is tt and (fi.name in raw or fi.name in ("add", "add_by_hash")) and isinstance(node.ctx, ast.Store)
-                ok = in_raw or q == "PseudonymManager.__init__"
-                ctx.check(ok, "writers", fi or m.relpath, enclosing_stmt(node), f"elements written in {q}", "the token tree's element table is written outside _append / the database reload")
-            if isinstance(node, ast.Call) and isinstance(node.func, ast.Attribute) and node.func.attr in ("pop", "clear", "update", "popitem", "setdefault") \
-                    and (chain(node.func.value) or "").endswith(".elements") and m.relpath.startswith("ipv8/attestation/"):
-                fi = repo.function_of(node)
-                ctx.check(False, "writers", fi or m.relpath, node, "elements never shrinks/updates in bulk", "tokens are removed from / bulk-written into the tree")
+        if not m.relpath.startswith("ipv8/attestation/"):
+            continue
+        for f in m.all_functions:
+            for node in walk_no_nested(f.node):
+                if isinstance(node, (ast.FunctionDef, ast.AsyncFunctionDef, ast.ClassDef, ast.Lambda)) and node is not f.node:
+                    continue
+                sites = []
+                if isinstance(node, ast.Subscript) and isinstance(node.ctx, (ast.Store, ast.Del)) and (chain(node.value) or "").endswith("elements"):
+                    sites.append((enclosing_stmt(node), "del" if isinstance(node.ctx, ast.Del) else "set"))
+                elif isinstance(node, ast.Call) and isinstance(node.func, ast.Attribute) and (chain(node.func.value) or "").endswith(".elements"):
+                    if node.func.attr in ("pop", "clear", "popitem", "__delitem__"):
+                        sites.append((node, "del"))
+                    elif node.func.attr in ("update", "setdefault", "__setitem__"):
+                        sites.append((node, "set"))
+                elif isinstance(node, ast.Attribute) and node.attr == "elements" and isinstance(node.ctx, (ast.Store, ast.Del)) and \
+                        (f.cls is tt or chain(node.value) in ("self.tree", "tree") or (chain(node.value) or "").endswith(".tree")):
+                    st = enclosing_stmt(node)
+                    if not (f.cls is tt and f.name == "__init__" and isinstance(st, (ast.Assign, ast.AnnAssign)) and isinstance(st.value, ast.Dict) and not st.value.keys):
+                        sites.append((st, "set" if isinstance(st, ast.AugAssign) else "rebind"))
+                for site, kind in sites:
+                    n += 1
+                    q = f.qualname
+                    # inside TokenTree: add / add_by_hash (the token they created with the own key), gather_token (the checked
+                    # entry) and private helpers that only these three reach; elsewhere: the database reload
+                    in_tree = f.cls is tt and kind == "set" and (f.name in allowed_entries or (_is_private(f.name) and roots.get(f.name, set()) and roots[f.name] <= allowed_entries))
+                    reload_ = f.cls is not None and f.cls.name == "PseudonymManager" and kind in ("set", "rebind") and \
+                        (f.name == "__init__" or (_is_private(f.name) and pm_roots.get(f.name) == {"__init__"}))
+                    ok = in_tree or reload_
+                    ctx.check(ok, "writers", f, site, f"elements written in {q}",
+                              "tokens are removed from / bulk-written into the tree" if kind != "set" else "the token tree's element table is written outside _append / the database reload")
     ctx.floor("writers", n, 2)
-    # closed set of raw appenders: private, each stores / hands on exactly its own (never rebound) token parameter under
-    # that token's hash, and is called only from add / add_by_hash (own key), from another raw appender, or - the
-    # waking appender only - from gather_token
-    for name, f in raw.items():
-        tokp = f.params()[1] if len(f.params()) > 1 else None
-        ctx.check(name.startswith("_") and tokp is not None and not local_defs(f, tokp), "writers", f, f.node,
-                  f"{name} is private and appends the token it is given", "a public / token-rebinding method writes the element table unchecked")
-        for s, v, k in _append_sites(f, raw):
-            if name == "_append_chain_reaction_token":
-                continue                    # its sites are judged by wake-all (`the token itself is appended first`)
-            ok = _x(f, v) == tokp and (k is None or _x(f, k) == f"{tokp}.get_hash()")
-            ctx.check(ok, "writers", f, s, f"{name} appends its own token parameter under its hash", "a token other than the checked one is written into the tree")
-        for m, fi, c in repo.callers_of_name(name):
-            if fi is None or not m.relpath.startswith("ipv8/attestation/"):
+    # private helpers that (transitively) write the table are reachable only through the three entry points of their own class
+    writers = {name: f for name, f in tt.methods.items() if _is_private(name) and
+               any(_writes(g, "self.elements") for g in [f, *_private_closure(f).values()])}
+    att = [m for m in repo.modules.values() if m.relpath.startswith("ipv8/attestation/")]
+    att_attrs = [(m, n) for m in att for n in ast.walk(m.tree) if isinstance(n, ast.Attribute) and n.attr in writers]
+    for name, f in writers.items():
+        for m, c in [(m, parent(n)) for m, n in att_attrs if n.attr == name and isinstance(parent(n), ast.Call) and parent(n).func is n]:
+            fi = repo.function_of(c)
+            if fi is None:
                 continue
-            if name == "_append_chain_reaction_token":
-                ctx.check(fi.qualname == "TokenTree.gather_token", "writers", fi, c, "_append_chain_reaction_token called only from gather_token",
-                          "tokens are appended around gather_token's checks")
-                continue
-            ok = fi.cls is tt and chain(c.func) == f"self.{name}" and (fi.name in ("add", "add_by_hash") or fi.name in raw)
+            ok = fi.cls is tt and (fi.name in allowed_entries or (_is_private(fi.name) and roots.get(fi.name, set()) <= allowed_entries))
             ctx.check(ok, "writers", fi, c, f"{name} called from {fi.qualname}", f"{name} is called around the verification in gather_token")
+        for m, a in [(m, n) for m, n in att_attrs if n.attr == name]:
+            fi = repo.function_of(a)
+            if not (fi is not None and fi.cls is tt) and not (isinstance(parent(a), ast.Call) and parent(a).func is a):
+                ctx.check(False, "writers", fi or m.relpath, enclosing_stmt(a), f"{name} referenced outside TokenTree", f"{name} escapes the token tree (unchecked writer of the element table)")
     for name in ("add", "add_by_hash"):
-        f2 = repo.method("TokenTree", name, TR)
+        f2 = _view(ctx, repo.method("TokenTree", name, TR))
+        _undecided_helpers(ctx, f2, ("self.elements",), {"gather_token"})
         toks = calls(f2, "Token")
-        ok = len(toks) == 1 and _x(f2, arg(toks[0], 3, "private_key")) == "self.private_key" and _prev_pointer_ok(f2, arg(toks[0], 0, "previous_token_hash"))
-        sites = _append_sites(f2, raw)
-        ok = ok and bool(sites) and all(_x(f2, v) == _x(f2, toks[0]) for s, v, k in sites)
+        sites = _writes(f2, "self.elements")
+        fcfg = ctx.cfg(f2)
+        ok = bool(toks) and bool(sites)
+        for s_, k, v, kind in sites:
+            # the stored token: one Token(...) call, or one per branch (`if after is None: t = Token(genesis..) else: t = Token(after..)`)
+            cands = [(s_, v)]
+            if isinstance(strip_cast(v) if v is not None else None, ast.Name) and _def_value(f2, strip_cast(v)) is None:
+                r = _reaching(f2, strip_cast(v))
+                cands = [(st, val) for st, val, idx in r] if r and all(val is not None and idx is None for st, val, idx in r) else []
+                if not (isinstance(strip_cast(k), ast.Call) and isinstance(strip_cast(k).func, ast.Attribute) and strip_cast(k).func.attr == "get_hash"
+                        and norm(strip_cast(k).func.value) == norm(strip_cast(v)) and not strip_cast(k).args):
+                    cands = []
+            good = kind == "set" and bool(cands)
+            for at, val in cands:
+                made = _expand(f2, val) if val is not None else None
+                good = good and isinstance(made, ast.Call) and chain(made.func) == "Token" and (len(cands) > 1 or _x(f2, k) == norm(made) + ".get_hash()") and \
+                    _x(f2, arg(made, 3, "private_key")) == "self.private_key" and _prev_pointer_ok(f2, fcfg, at, val, made)
+            ok = ok and good
         ctx.check(ok, "writers", f2, f2.node, f"{name} signs with the tree's own key and chains to genesis or the given token", f"{name} creates tokens not chained/signed by the tree's key")
+    # an append by gather_token is always followed by the wake-up of the waiting children
+    g, entry = _gather(ctx)
+    gcfg = ctx.cfg(g)
+    scan_nodes = [x for s in _scans(g) for x in gcfg.nodes_for(s.iter if isinstance(s, ast.For) else s)]
+    for s, k, v, kind in _writes(g, "self.elements"):
+        ok = all(gcfg.always_followed_by(x, scan_nodes) for x in gcfg.nodes_for(s)) if scan_nodes else False
+        ctx.check(ok, "writers", g, s, "an append in gather_token is followed by the wake-up of the waiting children",
+                  "gather_token appends a token around the wake-up: children that arrived before it stay in the waiting area")
     # database reload: tokens are inserted into the database only after a successful gather_token
     pm = repo.cls("PseudonymManager", "ipv8/attestation/identity/manager.py")
     n_ins = 0
-    for f2 in pm.methods.values():
+    pviews = {name: _view(ctx, f0) for name, f0 in pm.methods.items()}
+    absorbed = {h.name for name, v_ in pviews.items() for h in getattr(v_, "inlined", []) if h.cls is pm}
+    left = {call_name(c) for v_ in pviews.values() for c in calls(v_) if isinstance(c.func, ast.Attribute) and chain(c.func.value) == "self"}
+    for name, f2 in pviews.items():
+        if _is_private(name) and name in absorbed and name not in left:
+            continue                    # a private helper that is part of its callers' views
         cfg = ctx.cfg(f2)
         for c in calls(f2):
             if call_name(c) == "insert_token":
@@ -404,10 +2160,11 @@ def rule_writers(ctx: Ctx) -> None:
                 ctx.check(gathered or own, "writers", f2, c, "token written to the database only after gather_token accepted it (or it was created with the own key)",
                           "a token is persisted (and later reloaded into the tree unverified) without having been accepted by gather_token", [str(f) for f in fs])
     ctx.floor("writers.insert_token", n_ins, 1)
-    g = repo.method("TokenTree", "__init__", TR)
-    gh = [s for s, t in stores(g, "self.genesis_hash")]
-    ok = bool(gh) and all(isinstance(s, (ast.Assign, ast.AnnAssign)) and norm(_sha3_arg(_expand(g, s.value))) == "self.public_key.key_to_bin()" for s in gh)
-    ctx.check(ok, "writers", g, g.node, "genesis hash = sha3_256(public key)", "the genesis pointer is not the hash of the tree's key")
+    g0 = repo.method("TokenTree", "__init__", TR)
+    gi = _view(ctx, g0)
+    gh = [s for s, t in stores(gi, "self.genesis_hash")]
+    ok = bool(gh) and all(isinstance(s, (ast.Assign, ast.AnnAssign)) and norm(_sha3_arg(_expand(gi, s.value))) == "self.public_key.key_to_bin()" for s in gh)
+    ctx.check(ok, "writers", gi, gi.node, "genesis hash = sha3_256(public key)", "the genesis pointer is not the hash of the tree's key")
 
 
 def _unwrap_iter(fi: FuncInfo, e: ast.AST) -> ast.AST:
@@ -441,21 +2198,24 @@ def _inside(node: ast.AST, root: ast.AST) -> bool:
 
 
 def rule_wake_all(ctx: Ctx) -> None:
-    repo = ctx.repo
-    fi = repo.method("TokenTree", "_append_chain_reaction_token", TR)
+    fi, entry = _gather(ctx)
     cfg = ctx.cfg(fi)
     tok = fi.params()[1]
-    raw = _raw_appenders(ctx)
-    ctx.check(not local_defs(fi, tok), "wake-all", fi, fi.node, "token parameter not rebound", "_append_chain_reaction_token rebinds the appended token")
-    # the scan of the waiting area must not stop at the first match
-    scans = [n for n in ast.walk(fi.node) if isinstance(n, (ast.For, ast.comprehension)) and chain(_unwrap_iter(fi, n.iter)) == "self.unchained"]
+    _undecided_helpers(ctx, fi, ("self.elements", "self.unchained"), entry, tok)
+    # the scan of the waiting area must not stop at the first match (also looked for in helpers that could not be inlined)
+    scans = _scans(fi)
     ctx.check(bool(scans), "wake-all", fi, fi.node, "the waiting area is scanned for children of the appended token", "waiting children are never re-offered")
     for s in scans:
         if isinstance(s, ast.For):
             early = [x for x in ast.walk(s) if isinstance(x, (ast.Break, ast.Return))]
             ctx.check(not early, "wake-all", fi, s, "scan of the waiting area examines every waiting token",
                       "only the first waiting child of the appended token is woken: with a fork arriving before its parent the tree depends on arrival order")
-    scan_vars = {norm(s.target) for s in scans}
+    scan_vars = set()
+    for s in scans:
+        t = s.target
+        if chain(_unwrap_iter(fi, s.iter)) == "self.unchained.items()" and isinstance(t, ast.Tuple) and t.elts:
+            t = t.elts[0]
+        scan_vars.add(norm(t))
     cond_ok = False
     for n in ast.walk(fi.node):
         if isinstance(n, ast.Compare) and len(n.ops) == 1 and isinstance(n.ops[0], (ast.Eq, ast.NotEq)):
@@ -463,8 +2223,9 @@ def rule_wake_all(ctx: Ctx) -> None:
             cond_ok = cond_ok or any(sides == {f"{v}.previous_token_hash", f"{tok}.get_hash()"} for v in scan_vars)
     ctx.check(cond_ok, "wake-all", fi, fi.node, "children selected by previous_token_hash == appended.get_hash()", "children are not matched by parent hash")
     # every selected token is re-offered through gather_token (full re-check)
-    gt = calls(fi, "self.gather_token")
+    gt = [c for c in calls(fi) if isinstance(c.func, ast.Attribute) and chain(c.func.value) == "self" and c.func.attr in entry]
     ok = bool(gt)
+    reoffers = []
     for c in gt:
         v = arg(c, 0, "token")
         if len(c.args) + len(c.keywords) != 1:
@@ -473,17 +2234,67 @@ def rule_wake_all(ctx: Ctx) -> None:
         target = gen.target if gen is not None else loop.target if loop is not None else None
         if target is None or norm(target) != norm(v):
             if any(isinstance(a, ast.While) for a in ancestors(c)):
-                raise AnalysisError("undecided: waiting children are re-offered from a while-loop in _append_chain_reaction_token")
+                raise AnalysisError("undecided: waiting children are re-offered from a while-loop in gather_token's wake-up")
             ok = False                      # a single variable: at most one child is re-offered
             continue
         it = gen.iter if gen is not None else loop.iter
         ok = ok and _derives_from_scan(fi, it, loop if gen is None else gen, scans)
+        reoffers.append((c, loop if gen is None else None, norm(target), it))
     ctx.check(ok, "wake-all", fi, fi.node, "every waiting child is re-offered through gather_token", "at most one waiting child is re-offered")
-    sites = _append_sites(fi, raw)
-    first = bool(sites) and all(_x(fi, v) == tok and (k is None or _x(fi, k) == f"{tok}.get_hash()") for s, v, k in sites)
-    app_nodes = [n for s, v, k in sites for n in cfg.nodes_for(s)]
+    sites = _writes(fi, "self.elements")
+    first = bool(sites) and all(kind == "set" and _x(fi, v) == tok and _x(fi, k) == f"{tok}.get_hash()" for s, k, v, kind in sites)
+    app_nodes = [n for s, k, v, kind in sites for n in cfg.nodes_for(s)]
     before = all(cfg.must_complete(n, app_nodes) for c in gt for n in cfg.nodes_for(c))
     ctx.check(first and before, "wake-all", fi, fi.node, "the token itself is appended first", "the token is not appended before its children are woken")
+    # a woken token leaves the waiting area whatever the outcome of its re-offer: stale entries would use up the bound
+    for c, loop, var, it in reoffers:
+        ctx.check(_leaves_waiting_area(ctx, fi, cfg, c, loop, var, it), "wake-all", fi, enclosing_stmt(c), "a re-offered token is removed from the waiting area on every path",
+                  "a woken token can stay behind in the waiting area (stale entry): it keeps occupying the bounded area and get_missing() keeps reporting it, "
+                  "so really waiting tokens are evicted although fewer than unchained_max_size tokens wait - the tree depends on arrival order")
+
+
+def _removals(fi: FuncInfo, root: ast.AST, var: str) -> list[ast.AST]:
+    """sites below root that remove `var` from self.unchained"""
+    out: list[ast.AST] = []
+    for s, k, v, kind in _writes(root, "self.unchained"):
+        if kind == "del" and k is not None and _x(fi, k) == var:
+            out.append(s)
+    return out
+
+
+def _leaves_waiting_area(ctx: Ctx, fi: FuncInfo, cfg, c: ast.Call, loop, var: str, it: ast.AST) -> bool:
+    if loop is not None:
+        rem = [n for s in _removals(fi, loop, var) for n in cfg.nodes_for(s)]
+
+        def absent(u, v, lab) -> bool:
+            if u.kind != "cond" or lab not in (True, False):
+                return False
+            m = _membership(fi, fact_of(u.ast, lab), "self.unchained")
+            return m is not None and m == (var, False)
+        if rem or any(absent(u, v, lab) for u in cfg.nodes for v, lab in u.succ):
+            cn = cfg.nodes_for(c)
+            for ln in cfg.nodes_for(loop):
+                # an iteration that evaluates the re-offer without having removed the token and completes without removing it
+                pre = cfg.reach([v for v, lab in ln.succ if lab is True], cut_nodes=rem, cut_edge=absent, follow_exc=False)
+                post = cfg.reach([v for x in cn for v, lab in x.succ if lab != "exc"], cut_nodes=rem, cut_edge=absent, follow_exc=False)
+                if any(x in pre for x in cn) and (ln in post or cfg.exit in post):
+                    return False
+            return True
+    # removed in a loop of its own over the same selection
+    want = _x(fi, it)
+    for n in ast.walk(fi.node):
+        if isinstance(n, ast.For) and n is not loop and _x(fi, n.iter) == want and _removals(fi, n, norm(n.target)):
+            rem = [x for s in _removals(fi, n, norm(n.target)) for x in cfg.nodes_for(s)]
+            ok = True
+            for ln in cfg.nodes_for(n):
+                r = cfg.reach([v for v, lab in ln.succ if lab is True], cut_nodes=rem, follow_exc=False)
+                ok = ok and ln not in r and cfg.exit not in r
+            if ok and not any(isinstance(x, (ast.Break, ast.Return)) for x in ast.walk(n)):
+                return True
+    other = [s for s, k, v, kind in _writes(fi, "self.unchained") if kind in ("bulk", "rebind") or (kind == "del" and k is not None and _x(fi, k) not in (var, "next(iter(self.unchained))"))]
+    if other:
+        raise AnalysisError(f"undecided: the waiting area is rewritten by `{norm(other[0])[:60]}`; cannot tell whether woken tokens leave it")
+    return False
 
 
 def _derives_from_scan(fi: FuncInfo, it: ast.AST, loop: ast.AST, scans: list) -> bool:
@@ -510,23 +2321,23 @@ def _derives_from_scan(fi: FuncInfo, it: ast.AST, loop: ast.AST, scans: list) ->
     return False
 
 
-def _unconditional_in_source(fi: FuncInfo, callee: str) -> bool:
-    """
-    Decided on the source text as written (before load-time normalisation): fi calls self.<callee> exactly once and not
-    in a conditionally evaluated expression position.  Needed because the alias elimination substitutes
-    `r = self.f(x)` / `ok = ok and r is not None` into `ok = ok and self.f(x) is not None`, which would make an
-    unconditional call look short-circuited.
-    """
-    try:
-        tree = ast.parse(fi.module.src)
-    except SyntaxError:
-        return False
-    set_parents(tree)
-    for cls in [c for c in ast.walk(tree) if isinstance(c, ast.ClassDef) and fi.cls is not None and c.name == fi.cls.name]:
-        for fn in [f for f in cls.body if isinstance(f, (ast.FunctionDef, ast.AsyncFunctionDef)) and f.name == fi.name]:
-            found = [c for c in walk_no_nested(fn) if isinstance(c, ast.Call) and chain(c.func) == f"self.{callee}"]
-            return len(found) == 1 and not expr_context_facts(found[0]) and not any(isinstance(a, (ast.IfExp, *_COMPS, ast.Lambda)) for a in ancestors(found[0]))
-    return False
+def _attr_stores(fi: FuncInfo, target: str) -> list[tuple[ast.stmt, ast.AST | None]]:
+    """(statement, stored value or None when it is not a plain assignment) for every store into attribute `target`;
+    `a.x, a.y = u, v` is read element-wise"""
+    out: list = []
+    for s, t in stores(fi, target):
+        val = None
+        if isinstance(s, ast.Assign):
+            for tg in s.targets:
+                if tg is t:
+                    val = s.value
+                elif isinstance(tg, (ast.Tuple, ast.List)) and isinstance(s.value, (ast.Tuple, ast.List)) and len(tg.elts) == len(s.value.elts) and \
+                        not any(isinstance(x, ast.Starred) for x in [*tg.elts, *s.value.elts]):
+                    val = next((v for e, v in zip(tg.elts, s.value.elts) if e is t), val)
+        elif isinstance(s, ast.AnnAssign):
+            val = s.value
+        out.append((s, val))
+    return out
 
 
 def _never_both_missing(cfg, a_nodes: list, b_nodes: list) -> bool:
@@ -538,9 +2349,37 @@ def _never_both_missing(cfg, a_nodes: list, b_nodes: list) -> bool:
     return True
 
 
+def _init_case(ctx: Ctx, init: FuncInfo, content_none: bool, hash_none: bool) -> tuple[bool, str]:
+    """
+    Token.__init__ specialised (by partial evaluation) to one None-ness case of (content, content_hash): may it complete
+    with content attached although the stored content pointer is not the hash of that content?
+    """
+    cp, hp = "content", "content_hash"
+    v = _view(ctx, init, assume_none=tuple(p for p, n in ((cp, content_none), (hp, hash_none)) if n),
+              assume_set=tuple(p for p, n in ((cp, content_none), (hp, hash_none)) if not n))
+    cfg = ctx.cfg(v)
+    if cfg.exit not in cfg.reach(follow_exc=False):
+        return True, "raises"
+    hs = [(s, val) for s, val in _attr_stores(v, "self.content_hash") if val is not None]
+    other = [s for s, val in _attr_stores(v, "self.content_hash") if val is None]
+    derived = [s for s, val in hs if norm(_sha3_arg(_expand(v, val))) == cp]
+    given = [s for s, val in hs if _x(v, val) == hp]
+    cs = _attr_stores(v, "self.content")
+    attach = [(s, val) for s, val in cs if val is not None and not _is_none(_expand(v, val))]
+    if other or any(val is None for s, val in cs):
+        return False, "content / content_hash written in an unexpected way"
+    if content_none:
+        ok = not attach and bool(hs) and (hash_none or len(given) == len(hs))
+        return ok, "no content: nothing attached, the given pointer is kept"
+    ok = all(_x(v, val) == cp for s, val in attach) and len(derived) == len(hs) and \
+        _never_both_missing(cfg, [n for s, val in attach for n in cfg.nodes_for(s)], [n for s in derived for n in cfg.nodes_for(s)]) and \
+        (not attach or bool(derived))
+    return ok, "content given: the pointer is derived from it"
+
+
 def rule_content(ctx: Ctx) -> None:
     repo = ctx.repo
-    rc = repo.method("Token", "receive_content", TK)
+    rc = _view(ctx, repo.method("Token", "receive_content", TK))
     cfg = ctx.cfg(rc)
     c = rc.params()[1]
     ctx.check(not local_defs(rc, c), "content-binding", rc, rc.node, "content parameter not rebound", "receive_content rebinds the content it checks")
@@ -554,95 +2393,281 @@ def rule_content(ctx: Ctx) -> None:
                     ok = True
         ctx.check(ok and _x(rc, getattr(s, "value", None)) == c, "content-binding", rc, s, "content attached only if sha3_256(content) == content_hash",
                   "content that does not hash to the token's content pointer can be attached", [str(f) for f in fs])
-    init = repo.method("Token", "__init__", TK)
-    icfg = ctx.cfg(init)
-    cp = "content"
-    hs = [s for s, t in stores(init, "self.content_hash") if isinstance(s, (ast.Assign, ast.AnnAssign))]
-    for s in hs:
-        if isinstance(s.value, ast.Name) and local_defs(init, s.value.id) and single_def(init, s.value.id) is None:
-            raise AnalysisError(f"undecided: Token.__init__ stores a content hash that is (re)assigned on several paths: `{norm(s)}`")
-    derived = [s for s in hs if norm(_sha3_arg(_expand(init, s.value))) == cp]
-    given = [s for s in hs if _x(init, s.value) == "content_hash"]
-    attach = [s for s, t in stores(init, "self.content") if isinstance(s, (ast.Assign, ast.AnnAssign)) and s.value is not None and not _is_none(_expand(init, s.value))]
-    ok = bool(derived) and bool(given) and len(derived) + len(given) == len(hs) and all(_x(init, s.value) == cp for s in attach) and not local_defs(init, cp) and \
-        _never_both_missing(icfg, [n for s in attach for n in icfg.nodes_for(s)], [n for s in derived for n in icfg.nodes_for(s)])
-    ctx.check(ok, "content-binding", init, init.node, "content hash derived from the content when content is given", "Token.__init__ accepts content with an unrelated hash")
-    gp = repo.method("Token", "get_plaintext", TK)
+    init0 = repo.method("Token", "__init__", TK)
+    init = _view(ctx, init0)
+    ps = init.params()
+    ctx.anchor("content" in ps and "content_hash" in ps, "parameters content / content_hash of Token.__init__")
+    ok = not local_defs(init, "content")
+    why = []
+    for content_none in (False, True):
+        for hash_none in (False, True):
+            if content_none and hash_none:
+                continue
+            r, what = _init_case(ctx, init0, content_none, hash_none)
+            ok = ok and r
+            why.append(f"content {'is' if content_none else 'is not'} None, content_hash {'is' if hash_none else 'is not'} None: {what}{'' if r else ' - FAILS'}")
+    ctx.check(ok, "content-binding", init, init.node, "content hash derived from the content when content is given", "Token.__init__ accepts content with an unrelated hash", why)
+    gp = _view(ctx, repo.method("Token", "get_plaintext", TK))
     rets = [r for r in walk_no_nested(gp.node) if isinstance(r, ast.Return)]
-    ok = bool(rets) and all(_x(gp, r.value) == "self.previous_token_hash + self.content_hash" for r in rets)
+    ok = bool(rets) and all(_concat(_expand(gp, r.value)) == "self.previous_token_hash + self.content_hash" for r in rets)
     ctx.check(ok, "content-binding", gp, gp.node, "signed plaintext = previous hash + content hash", "the signature does not cover both pointers")
+
+
+def _cursor_of(fi: FuncInfo, k: ast.AST | None) -> str | None:
+    """`cur` when k denotes `cur.previous_token_hash` (directly or through locals)"""
+    e = k
+    for _ in range(6):
+        if e is None:
+            return None
+        e = strip_cast(e)
+        if isinstance(e, ast.Attribute) and e.attr == "previous_token_hash" and isinstance(e.value, ast.Name):
+            return e.value.id
+        if isinstance(e, ast.Name):
+            e = _def_value(fi, e)
+            continue
+        return None
+    return None
+
+
+def _walk_units(ctx: Ctx, f2: FuncInfo) -> list[FuncInfo]:
+    """the view of f2 and the views of the private helpers it hands the walk to (those that could not be inlined)"""
+    out: list[FuncInfo] = []
+    seen: set[str] = set()
+    todo = [f2]
+    while todo:
+        f = todo.pop()
+        if f.name in seen:
+            continue
+        seen.add(f.name)
+        v = _view(ctx, f)
+        out.append(v)
+        handed = set(_private_targets(v)) | {c.func.attr for c in calls(v) if isinstance(c.func, ast.Attribute) and chain(c.func.value) == "self"}
+        for name in sorted(handed):
+            h = f.cls.lookup(name) if f.cls is not None else None
+            if h is not None and name not in seen:
+                todo.append(h)                # e.g. verify() written as bool(self.get_root_path(..)): the walk is judged where it is
+    return out
+
+
+def _walk_unit(ctx: Ctx, v: FuncInfo) -> tuple[bool, bool] | None:
+    """(every step verified, success only at the genesis hash) for one function that walks towards the root; None: no walk here"""
+    cfg = ctx.cfg(v)
+    recursive = any(isinstance(c.func, ast.Attribute) and chain(c.func.value) == "self" and c.func.attr == v.name for c in calls(v))
+    steps: list[tuple[ast.AST, str | None]] = []
+    for x in walk_no_nested(v.node):
+        k = None
+        if isinstance(x, ast.Subscript) and isinstance(x.ctx, ast.Load) and chain(x.value) == "self.elements":
+            k = x.slice
+        elif isinstance(x, ast.Call) and chain(x.func) == "self.elements.get" and x.args:
+            k = x.args[0]
+        if k is None:
+            continue
+        if not (recursive or any(isinstance(a, _LOOPS) for a in ancestors(x))):
+            continue
+        steps.append((x, _cursor_of(v, k)))
+    loops = [l for l in walk_no_nested(v.node) if isinstance(l, _LOOPS) and any(_inside(x, l) for x, c in steps)]
+    if not steps:
+        if any(isinstance(l, ast.While) for l in walk_no_nested(v.node)):
+            raise AnalysisError(f"undecided: no step `self.elements[<cursor>.previous_token_hash]` recognised in the loop of {v.qualname}")
+        return None
+    cursors = {c for x, c in steps}
+    if None in cursors or len(cursors) != 1:
+        raise AnalysisError(f"undecided: the cursor of the walk in {v.qualname} could not be identified")
+    cur = next(iter(cursors))
+    ver = [n for n in cfg.nodes if n.kind == "cond" and _is_verify_call(v, n.ast, cur)]
+    gen = {}
+    for n in cfg.nodes:
+        if n.kind == "cond":
+            f = fact_of(n.ast, True)
+            if f.op == "eq":
+                sides = [(f.left, f.right), (f.right, f.left)]
+                if any(_x(v, a) == "self.genesis_hash" and _cursor_of(v, b) == cur for a, b in sides):
+                    gen[n] = f.pos
+    # paths are followed from every (re)definition of the cursor: the facts must hold for the *current* token
+    defs = [n for s, val, i in local_defs(v, cur) for n in cfg.nodes_for(s)]
+    starts = [cfg.entry] + [w for d in defs for w, lab in d.succ if lab != "exc"]
+    unverified = cfg.reach(starts, cut_edge=lambda u, w, lab: u in ver and lab is True)
+    not_root = cfg.reach(starts, cut_edge=lambda u, w, lab: u in gen and lab is gen[u])
+    # advancing to the parent happens only after the signature of the current token was checked
+    verified = bool(ver) and all(n not in unverified for x, c in steps for n in cfg.nodes_for(x))
+    # leaving the walk successfully: break, a non-empty result returned from inside the loop, or a flag that ends the loop
+    done: list[ast.AST] = []
+    bounds = {p for p in v.params()[2:]}
+    for l in loops:
+        for b in ast.walk(l):
+            if isinstance(b, ast.Break):
+                if any(isinstance(x, ast.Name) and x.id in bounds for f in facts_at(cfg, b) for x in ast.walk(f.atom)):
+                    continue                 # leaves the loop because the depth bound is used up: the result is computed after the loop
+                done.append(b)
+            elif isinstance(b, ast.Return) and _is_success(b.value):
+                done.append(b)
+            elif isinstance(l, ast.While) and isinstance(b, ast.Assign) and len(b.targets) == 1 and isinstance(b.targets[0], ast.Name) and isinstance(b.value, ast.Constant):
+                d = _Deep(ctx.repo, v)
+                d.fn = ast.Module(body=[], type_ignores=[])
+                t = d._fold(_Sub({b.targets[0].id: b.value}).visit(_cl(l.test)))
+                if d._truth(t) is False:
+                    done.append(b)
+    if recursive:
+        for r in walk_no_nested(v.node):
+            if isinstance(r, ast.Return) and _is_success(r.value) and not any(isinstance(c, ast.Call) and isinstance(c.func, ast.Attribute) and c.func.attr == v.name for c in ast.walk(r)):
+                done.append(r)
+    if not done:
+        if any(isinstance(x, (ast.Yield, ast.YieldFrom)) for x in walk_no_nested(v.node)):
+            raise AnalysisError(f"undecided: {v.qualname} walks towards the root as a generator; what its consumer takes for success is not derived")
+        if any("genesis_hash" in norm(l.test) for l in loops if isinstance(l, ast.While)):
+            raise AnalysisError(f"undecided: {v.qualname} ends its walk through the loop condition")
+        return verified, False
+    bad = [b for b in done if any(n in unverified or n in not_root for n in cfg.nodes_for(b))]
+    if recursive and bad and all(isinstance(b, ast.Return) and not isinstance(b.value, ast.Constant) and not any(_inside(b, l) for l in loops) for b in bad):
+        raise AnalysisError(f"undecided: {v.qualname} returns a computed verdict (`{norm(bad[0])[:50]}`) before the walk reached the genesis hash")
+    return verified, not bad
+
+
+def _is_success(value: ast.AST | None) -> bool:
+    """a returned value that is not an obvious failure (None / False / empty literal)"""
+    if value is None:
+        return False
+    if isinstance(value, ast.Constant):
+        return bool(value.value)
+    if isinstance(value, (ast.List, ast.Tuple, ast.Set)):
+        return bool(value.elts) and not all(isinstance(e, ast.Constant) and not e.value for e in value.elts)
+    if isinstance(value, ast.Dict):
+        return bool(value.keys)
+    return True
 
 
 def _walk_to_root(ctx: Ctx, f2: FuncInfo, name: str) -> None:
     """verify / get_root_path: every token on the walk is signature-checked; the walk succeeds only at the genesis hash."""
-    cfg = ctx.cfg(f2)
-    loops = [l for l in walk_no_nested(f2.node) if isinstance(l, ast.While)]
-    # the steps: `<cursor> = self.elements[...]` inside the loop
-    steps = []
-    for s in walk_no_nested(f2.node):
-        if isinstance(s, ast.Assign) and len(s.targets) == 1 and isinstance(s.targets[0], ast.Name) and any(isinstance(a, ast.While) for a in ancestors(s)):
-            v = _expand(f2, s.value)
-            if (isinstance(v, ast.Subscript) and chain(v.value) == "self.elements") or _table_key(v, "self.elements") is not None:
-                steps.append(s)
-    if loops and not steps:
-        raise AnalysisError(f"undecided: no step `<cursor> = self.elements[...]` recognised in TokenTree.{name}")
-    cursors = {s.targets[0].id for s in steps}
-    ok = bool(loops) and len(cursors) == 1
-    if ok:
-        cur = next(iter(cursors))
-        ver = [n for n in cfg.nodes if n.kind == "cond" and _is_verify_call(f2, n.ast, cur) and any(isinstance(a, ast.While) for a in ancestors(n.ast))]
-        gen = {}
-        for n in cfg.nodes:
-            if n.kind == "cond":
-                f = fact_of(n.ast, True)
-                if f.op == "eq" and {_x(f2, f.left), _x(f2, f.right)} == {f"{cur}.previous_token_hash", "self.genesis_hash"}:
-                    gen[n] = f.pos
-        # paths are followed from every (re)definition of the cursor: the facts must hold for the *current* token
-        defs = [n for s, v, i in local_defs(f2, cur) for n in cfg.nodes_for(s)]
-        starts = [cfg.entry] + [v for d in defs for v, lab in d.succ if lab != "exc"]
-        unverified = cfg.reach(starts, cut_edge=lambda u, v, lab: u in ver and lab is True)
-        not_root = cfg.reach(starts, cut_edge=lambda u, v, lab: u in gen and lab is gen[u])
-        ok = bool(ver)
-        # advancing to the parent happens only after the signature of the current token was checked
-        ok = ok and all(n not in unverified for s in steps for n in cfg.nodes_for(s))
-        # leaving the walk successfully: break, or a non-empty result returned from inside the loop
-        done = [b for l in loops for b in ast.walk(l) if isinstance(b, ast.Break)]
-        done += [r for l in loops for r in ast.walk(l) if isinstance(r, ast.Return) and r.value is not None and not isinstance(r.value, ast.Constant)
-                 and not (isinstance(r.value, (ast.List, ast.Tuple, ast.Set, ast.Dict)) and not getattr(r.value, "elts", getattr(r.value, "keys", None)))]
-        if not done and any("genesis_hash" in norm(l.test) for l in loops):
-            raise AnalysisError(f"undecided: TokenTree.{name} ends its walk through the loop condition")
-        ok = ok and bool(done) and all(n not in unverified and n not in not_root for b in done for n in cfg.nodes_for(b))
+    results = [r for r in (_walk_unit(ctx, v) for v in _walk_units(ctx, f2)) if r is not None]
+    ok = bool(results) and all(a and b for a, b in results)
     ctx.check(ok, "wire-chunks", f2, f2.node, f"{name}: each step's signature is checked; the walk ends only at the genesis hash",
               f"{name} accepts a path without checking every signature or without reaching the genesis")
 
 
+def _format_parts(e: ast.AST | None) -> tuple[str, str, str] | None:
+    """(constant prefix, text of the interpolated expression, constant suffix) of a struct format built from one value"""
+    if isinstance(e, ast.JoinedStr) and len(e.values) == 3 and isinstance(e.values[0], ast.Constant) and isinstance(e.values[1], ast.FormattedValue) \
+            and isinstance(e.values[2], ast.Constant) and e.values[1].format_spec is None and e.values[1].conversion == -1:
+        return e.values[0].value, norm(e.values[1].value), e.values[2].value
+    if isinstance(e, ast.BinOp) and isinstance(e.op, ast.Mod) and isinstance(e.left, ast.Constant) and isinstance(e.left.value, str):
+        x = e.right.elts[0] if isinstance(e.right, ast.Tuple) and len(e.right.elts) == 1 else e.right
+        for spec in ("%d", "%i", "%s"):
+            if e.left.value.count("%") == 1 and spec in e.left.value and not isinstance(x, ast.Tuple):
+                pre, suf = e.left.value.split(spec)
+                return pre, norm(x), suf
+    if isinstance(e, ast.Call) and isinstance(e.func, ast.Attribute) and e.func.attr == "format" and isinstance(e.func.value, ast.Constant) \
+            and isinstance(e.func.value.value, str) and len(e.args) == 1 and not e.keywords:
+        t = e.func.value.value
+        for spec in ("{}", "{0}", "{:d}", "{0:d}"):
+            if t.count("{") == 1 and spec in t:
+                pre, suf = t.split(spec)
+                return pre, norm(e.args[0]), suf
+    if isinstance(e, ast.BinOp) and isinstance(e.op, ast.Add) and isinstance(e.right, ast.Constant) and isinstance(e.left, ast.BinOp) and isinstance(e.left.op, ast.Add) \
+            and isinstance(e.left.left, ast.Constant) and isinstance(e.left.right, ast.Call) and chain(e.left.right.func) == "str" and len(e.left.right.args) == 1:
+        return e.left.left.value, norm(e.left.right.args[0]), e.right.value
+    return None
+
+
+def _token_layout(tu: FuncInfo, tparams: list[str]) -> int | None:
+    """size of the constant part of the struct format Token.unserialize reads at (data, offset): `<prefix>{signature length}s`"""
+    for c in calls(tu):
+        if call_name(c) != "unpack_from":
+            continue
+        recv = _expand(tu, c.func.value) if isinstance(c.func, ast.Attribute) else None
+        if isinstance(recv, ast.Call) and (chain(recv.func) or "").split(".")[-1] == "Struct" and len(recv.args) == 1:
+            fmt, buf, off = recv.args[0], arg(c, 0, "buffer"), arg(c, 1, "offset")          # struct.Struct(fmt).unpack_from(data, offset), built here
+        elif recv is None or chain(recv) == "struct":
+            fmt, buf, off = _expand(tu, arg(c, 0, "format")), arg(c, 1, "buffer"), arg(c, 2, "offset")
+        else:
+            continue                         # a layout object that was not built for this key in this call (e.g. cached on the class)
+        parts = _format_parts(fmt)
+        if parts is None or parts[2] != "s" or parts[1] not in (f"{tparams[1]}.get_signature_length()",) or _x(tu, buf) != tparams[0] or _x(tu, off) != tparams[2]:
+            continue
+        try:
+            return struct.calcsize(parts[0])
+        except struct.error:
+            return None
+    return None
+
+
+def _built_from_range(up: FuncInfo, coll: ast.AST):
+    """(range call, loop variable text, element expression) when `coll` is a list built completely from one pass over a range"""
+    e = strip_cast(coll)
+    while isinstance(e, ast.Call) and isinstance(e.func, ast.Name) and e.func.id in ("list", "tuple") and len(e.args) == 1:
+        e = e.args[0]
+    if isinstance(e, ast.Name):
+        ds = local_defs(up, e.id)
+        if len(ds) == 1 and ds[0][1] is not None and ds[0][2] is None:
+            v = strip_cast(ds[0][1])
+            if isinstance(v, ast.List) and not v.elts:
+                # xs = []; for i in range(..): xs.append(E)
+                apps = [c for c in calls(up) if isinstance(c.func, ast.Attribute) and c.func.attr == "append" and chain(c.func.value) == e.id]
+                others = [c for c in calls(up) if isinstance(c.func, ast.Attribute) and chain(c.func.value) == e.id and c.func.attr not in ("append",)]
+                if len(apps) == 1 and not others and len(apps[0].args) == 1:
+                    loop, gen = _loop_of(apps[0], up.node)
+                    if isinstance(loop, ast.For) and gen is None and isinstance(parent(apps[0]), ast.Expr) and parent(parent(apps[0])) is loop and \
+                            not any(isinstance(x, (ast.Break, ast.Return, ast.Continue)) for x in ast.walk(loop)):
+                        return _expand(up, loop.iter), norm(loop.target), apps[0].args[0]
+                return None
+            e = v
+            while isinstance(e, ast.Call) and isinstance(e.func, ast.Name) and e.func.id in ("list", "tuple") and len(e.args) == 1:
+                e = e.args[0]
+    if isinstance(e, (ast.ListComp, ast.GeneratorExp)) and len(e.generators) == 1 and not e.generators[0].ifs:
+        if isinstance(e, ast.GeneratorExp) and not (isinstance(parent(e), ast.Call) and chain(parent(e).func) in ("list", "tuple")):
+            return None
+        return _expand(up, e.generators[0].iter), norm(e.generators[0].target), e.elt
+    return None
+
+
 def rule_wire(ctx: Ctx) -> None:
     repo = ctx.repo
-    up = repo.method("TokenTree", "unserialize_public", TR)
+    up = _view(ctx, repo.method("TokenTree", "unserialize_public", TR))
     cfg = ctx.cfg(up)
     data = up.params()[1]
-    tu = repo.method("Token", "unserialize", TK)
+    tu = _view(ctx, repo.method("Token", "unserialize", TK))
     tparams = [p for p in tu.params() if p != "cls"]          # data, public_key, offset
     # struct format of one token: constant prefix + `{signature length}s`
-    fixed = None
-    fmt = [c for c in calls(tu) if call_name(c) == "unpack_from"]
-    if fmt and len(tparams) >= 3:
-        f0 = _expand(tu, arg(fmt[0], 0, "format"))
-        if isinstance(f0, ast.JoinedStr) and len(f0.values) == 3 and isinstance(f0.values[0], ast.Constant) and isinstance(f0.values[1], ast.FormattedValue) \
-                and isinstance(f0.values[2], ast.Constant) and f0.values[2].value == "s" and norm(f0.values[1].value) == f"{tparams[1]}.get_signature_length()" \
-                and _x(tu, arg(fmt[0], 1, "buffer")) == tparams[0] and _x(tu, arg(fmt[0], 2, "offset")) == tparams[2]:
-            try:
-                fixed = struct.calcsize(f0.values[0].value)
-            except struct.error:
-                fixed = None
+    fixed = _token_layout(tu, tparams) if len(tparams) >= 3 else None
     g = [c for c in calls(up, "self.gather_token")]
     loop, gen = _loop_of(g[0], up.node) if len(g) == 1 else (None, None)
-    it = _expand(up, gen.iter if gen is not None else loop.iter) if loop is not None else None
-    var = norm(gen.target if gen is not None else loop.target) if loop is not None else None
-    step = None
-    if isinstance(it, ast.Call) and chain(it.func) == "range" and len(it.args) == 3 and not it.keywords and const_value(it.args[0]) == 0 \
-            and norm(it.args[1]) == f"len({data})":
-        step = it.args[2]
+    wloop = None
+    if len(g) == 1 and loop is None:
+        wloop = next((a for a in ancestors(g[0]) if isinstance(a, ast.While)), None)
+    un = step = var = None
+    if loop is not None:
+        it = _expand(up, gen.iter if gen is not None else loop.iter)
+        var = norm(gen.target if gen is not None else loop.target)
+        un = _expand(up, arg(g[0], 0, "token"))
+        if not (isinstance(it, ast.Call) and chain(it.func) == "range"):
+            # two passes: all chunks are unserialized into a list first, then every element of the list is offered
+            built = _built_from_range(up, gen.iter if gen is not None else loop.iter)
+            if built is not None and isinstance(gen.target if gen is not None else loop.target, ast.Name):
+                # the element of the list stands for the loop variable in what is offered
+                offered = _Sub({var: built[2]}).visit(_cl(arg(g[0], 0, "token")))
+                ast.fix_missing_locations(offered)
+                it, var, un = built[0], built[1], _expand_text(up, offered)
+        if isinstance(it, ast.Call) and chain(it.func) == "range" and len(it.args) == 3 and not it.keywords and const_value(it.args[0]) == 0 \
+                and norm(it.args[1]) == f"len({data})":
+            step = it.args[2]
+    elif wloop is not None:
+        # i = 0 / while i < len(data): ... / i += step
+        f = fact_of(strip_cast(wloop.test), True)
+        if f.op == "lt" and f.pos and isinstance(strip_cast(f.left), ast.Name) and _x(up, f.right) == f"len({data})":
+            var = strip_cast(f.left).id
+            ds = local_defs(up, var)
+            init = [d for d in ds if isinstance(d[0], (ast.Assign, ast.AnnAssign))]
+            incs = [d[0] for d in ds if isinstance(d[0], ast.AugAssign) and isinstance(d[0].op, ast.Add) and _inside(d[0], wloop)]
+            if len(ds) == 2 and len(init) == 1 and len(incs) == 1 and const_value(init[0][1]) == 0 and not _inside(init[0][0], wloop):
+                inc_nodes = cfg.nodes_for(incs[0])
+                once = True
+                for ln in cfg.nodes_for(wloop):
+                    for cn in [x for x in cfg.nodes if x.kind == "cond" and x.ast is not None and _inside(x.ast, wloop.test)] or [ln]:
+                        r = cfg.reach([v for v, lab in cn.succ if lab is True], cut_nodes=inc_nodes, follow_exc=False)
+                        once = once and ln not in r
+                if once:
+                    step = _expand(up, incs[0].value)
+                    un = _expand(up, arg(g[0], 0, "token"))
+                    loop = wloop
     size_ok = False
     if isinstance(step, ast.BinOp) and isinstance(step.op, ast.Add):
         consts = [repo.resolve_const(up.module, x, up.cls) for x in (step.left, step.right)]
@@ -652,17 +2677,26 @@ def rule_wire(ctx: Ctx) -> None:
     ctx.check(size_ok, "wire-chunks", up, up.node, "chunk size 64 + sig_len == size of >32s32s{sig_len}s", "wire chunk size and token struct format disagree")
     ok = loop is not None and step is not None
     if ok:
-        un = _expand(up, arg(g[0], 0, "token"))
-        ok = isinstance(un, ast.Call) and chain(un.func) == "Token.unserialize" and norm(arg(un, 0, tparams[0])) == data and \
-            norm(arg(un, 1, tparams[1])) == "self.public_key" and norm(arg(un, 2, tparams[2])) == var and len(g[0].args) + len(g[0].keywords) == 1
+        ok = isinstance(un, ast.Call) and chain(un.func) == "Token.unserialize" and norm(arg(un, 1, tparams[1])) == "self.public_key" and \
+            len(g[0].args) + len(g[0].keywords) == 1
+        if ok:
+            a0, off = arg(un, 0, tparams[0]), arg(un, 2, tparams[2])
+            whole = norm(a0) == data and off is not None and _x(up, off) == var
+            # a slice that starts at the chunk's offset and spans (at least) one chunk, read from its own offset 0
+            sl = a0.slice if isinstance(a0, ast.Subscript) and norm(a0.value) == data and isinstance(a0.slice, ast.Slice) else None
+            sliced = sl is not None and sl.step is None and sl.lower is not None and _x(up, sl.lower) == var and (off is None or const_value(off) == 0) and \
+                (sl.upper is None or _concat(_expand(up, sl.upper)) in (f"{var} + {_concat(step)}", f"{_concat(step)} + {var}"))
+            ok = whole or sliced
     every = ok
     if ok and gen is None:
         ok = not any(isinstance(x, (ast.Break, ast.Return)) for x in ast.walk(loop))
         # no iteration completes without the gather_token call having been evaluated
         gn = cfg.nodes_for(g[0])
         for ln in cfg.nodes_for(loop):
-            r = cfg.reach([v for v, lab in ln.succ if lab is True], cut_nodes=gn, follow_exc=False)
-            every = every and ln not in r and cfg.exit not in r
+            heads = [ln] if not isinstance(loop, ast.While) else ([x for x in cfg.nodes if x.kind == "cond" and x.ast is not None and _inside(x.ast, loop.test)] or [ln])
+            for hd in heads:
+                r = cfg.reach([v for v, lab in hd.succ if lab is True], cut_nodes=gn, follow_exc=False)
+                every = every and ln not in r and cfg.exit not in r
     elif ok:
         consumer = parent(loop)
         full = not isinstance(loop, ast.GeneratorExp) or (isinstance(consumer, ast.Call) and chain(consumer.func) in (*_WRAPPERS, "sum", "min", "max"))
@@ -672,26 +2706,60 @@ def rule_wire(ctx: Ctx) -> None:
     ctx.check(ok, "wire-chunks", up, up.node, "every chunk is unserialized and offered to gather_token", "unserialize_public skips chunks or bypasses gather_token")
     if ok:
         cond = [str(f) for f in expr_context_facts(g[0])]
-        if cond and _unconditional_in_source(up, "gather_token"):
-            cond = []           # the call was moved next to its only use by the load-time alias elimination, not by the author
         ctx.check(every and not cond, "wire-chunks", up, enclosing_stmt(g[0]), "gather_token is evaluated for every chunk, whatever the earlier chunks returned",
                   "unserialize_public offers a chunk to gather_token only while all earlier chunks were accepted (short-circuit / conditional call): "
                   "None is the normal result for a token that arrives before its parent, so a tip-first serialisation (serialize_public(up_to=...)) "
                   "no longer reloads to the same tree", cond)
-    sp = repo.method("TokenTree", "serialize_public", TR)
-    emits = [c for c in calls(sp) if call_name(c) == "get_plaintext_signed"]
-    ctx.check(len(emits) >= 2, "wire-chunks", sp, sp.node, "serialize_public emits get_plaintext_signed of each token", "serialize_public does not emit the signed double pointers")
+    sp = _view(ctx, repo.method("TokenTree", "serialize_public", TR))
+    emits = [c for c in calls(sp, nested=True) if call_name(c) == "get_plaintext_signed"]
+    scfg = ctx.cfg(sp)
+    enodes = [n for c in emits for n in scfg.nodes_for(c)]
+    ctx.check(bool(emits) and scfg.exit not in scfg.reach(cut_nodes=enodes, follow_exc=False), "wire-chunks", sp, sp.node,
+              "serialize_public emits get_plaintext_signed of each token (whichever way it is asked to walk)", "serialize_public does not emit the signed double pointers")
     for name in ("verify", "get_root_path"):
         _walk_to_root(ctx, repo.method("TokenTree", name, TR), name)
 
 
+class _SameSigned(_Establish):
+    """P = self and `other` agree on one `part` of the signed plaintext: "plain" (get_plaintext()) or "sig" (signature).
+    A comparison of the whole signed plaintext / of the object hash (which covers both) establishes either part."""
+
+    def __init__(self, ctx: Ctx, fi: FuncInfo, other: str, gps_ok: bool, part: str) -> None:
+        super().__init__(ctx, fi, 0)
+        self.other, self.gps_ok, self.part = other, gps_ok, part
+
+    def atom(self, e: ast.AST) -> tuple[str, bool] | None:
+        f = fact_of(e, True)
+        if f.op == "is" and {_x(self.fi, f.left), _x(self.fi, f.right)} == {"self", self.other}:
+            return self.part, f.pos                  # the very same object
+        if f.op != "eq":
+            return None
+        l, r = _x(self.fi, f.left), _x(self.fi, f.right)
+        both = ["self._hash", "self.get_hash()"] + (["self.get_plaintext_signed()"] if self.gps_ok else []) + \
+               ["self.get_plaintext() + self.signature", "(self.get_plaintext(), self.signature)", "(self.signature, self.get_plaintext())"]
+        one = ["self.get_plaintext()"] if self.part == "plain" else ["self.signature"]
+        for a, b in ((l, r), (r, l)):
+            if a in both + one and b == a.replace("self.", self.other + "."):
+                return self.part, f.pos
+        return None
+
+
 def rule_signed_object(ctx: Ctx) -> None:
-    so = ctx.repo.method("AbstractSignedObject", "verify", SO)
+    so = _view(ctx, ctx.repo.method("AbstractSignedObject", "verify", SO))
     pk = so.params()[1]
     rets = [r for r in walk_no_nested(so.node) if isinstance(r, ast.Return)]
     ctx.anchor(rets, "return in AbstractSignedObject.verify")
     for r in rets:
         v = _expand(so, r.value)
+        while True:
+            if isinstance(v, ast.Call) and chain(v.func) == "bool" and len(v.args) == 1 and not v.keywords:
+                v = v.args[0]
+            elif isinstance(v, ast.IfExp) and const_value(v.body) is True and const_value(v.orelse) is False:
+                v = v.test
+            elif isinstance(v, ast.UnaryOp) and isinstance(v.op, ast.Not) and isinstance(v.operand, ast.UnaryOp) and isinstance(v.operand.op, ast.Not):
+                v = v.operand.operand
+            else:
+                break
         is_check = isinstance(v, ast.Call) and call_name(v) == "is_valid_signature" and len(v.args) + len(v.keywords) == 3 and \
             [norm(arg(v, i, k)) for i, k in enumerate(("ec_key", "data", "signature"))] == [pk, "self.get_plaintext()", "self.signature"]
         is_false = const_value(r.value) is False
@@ -699,17 +2767,38 @@ def rule_signed_object(ctx: Ctx) -> None:
                   "AbstractSignedObject.verify can return a verdict that was not computed for the given public key (e.g. a cached result): a token that once verified "
                   "against its real signer verifies against every key")
     ctx.check(not local_defs(so, pk), "verify-before-keep", so, so.node, "public_key parameter not rebound", "verify rebinds the key it was asked to check")
-    hsh = ctx.repo.method("AbstractSignedObject", "_sign", SO)
+    hsh = _view(ctx, ctx.repo.method("AbstractSignedObject", "_sign", SO))
     signed = "self.get_plaintext() + self.signature"
-    gps = ctx.repo.method("AbstractSignedObject", "get_plaintext_signed", SO)
+    gps = _view(ctx, ctx.repo.method("AbstractSignedObject", "get_plaintext_signed", SO))
     gps_rets = [r for r in walk_no_nested(gps.node) if isinstance(r, ast.Return)]
-    gps_ok = bool(gps_rets) and all(_x(gps, r.value) == signed for r in gps_rets)
+    gps_ok = bool(gps_rets) and all(_concat(_expand(gps, r.value)) == signed for r in gps_rets)
     ok = False
     for s_, t in stores(hsh, "self._hash"):
         covered = _sha3_arg(_expand(hsh, getattr(s_, "value", None)))
-        ok = ok or norm(covered) == signed or (norm(covered) == "self.get_plaintext_signed()" and gps_ok)
+        ok = ok or _concat(covered) == signed or (norm(covered) == "self.get_plaintext_signed()" and gps_ok)
     ctx.check(ok, "verify-before-keep", hsh, hsh.node, "object hash covers plaintext and signature", "the object hash no longer covers plaintext + signature")
-    fdt = ctx.repo.method("Token", "from_database_tuple", TK)
+    # identity of a token as a key of the waiting area (an OrderedDict keyed by Token): tokens that differ in their
+    # signature have different get_hash() values, i.e. are different elements of the tree, and must not compare equal
+    tkc = ctx.repo.cls("Token", TK)
+    eq0 = tkc.lookup("__eq__")
+    if eq0 is not None:
+        eq = _view(ctx, eq0)
+        other = eq.params()[1] if len(eq.params()) > 1 else None
+        ctx.anchor(other, "second parameter of __eq__")
+        ecfg = ctx.cfg(eq)
+        parts = [_SameSigned(ctx, eq, other, gps_ok, p) for p in ("plain", "sig")]
+        edges = [p.edge_pred(ecfg) for p in parts]
+        good = not local_defs(eq, other)
+        for r in [r for r in walk_no_nested(eq.node) if isinstance(r, ast.Return)]:
+            v = r.value if r.value is not None else ast.Constant(None)
+            fine = (isinstance(v, ast.Constant) and not v.value) or norm(v) == "NotImplemented" or \
+                all(p.establishes(v, True) or all(ecfg.must_pass_edges(n, e) for n in ecfg.nodes_for(r)) for p, e in zip(parts, edges))
+            good = good and fine
+        ctx.check(good, "wake-all", eq, eq.node, "tokens compare equal only if their signed plaintext (plaintext + signature) is equal",
+                  f"{eq.qualname} can report two tokens with different signatures (hence different get_hash(), different elements of the tree) as equal: as keys of the "
+                  "waiting area (OrderedDict keyed by Token) the second one replaces/loses against the first while it waits for its parent, but both are accepted when "
+                  "the parent arrives first - the tree depends on arrival order")
+    fdt = _view(ctx, ctx.repo.method("Token", "from_database_tuple", TK))
     for s_, t in stores(fdt, lambda c: c.endswith(".content")):
         ctx.check(False, "content-binding", fdt, s_, "reloaded content goes through receive_content", "content from the database is attached without the hash check")
     ctx.check(any(call_name(c) == "receive_content" for c in calls(fdt)), "content-binding", fdt, fdt.node, "from_database_tuple attaches content via receive_content",
@@ -717,12 +2806,17 @@ def rule_signed_object(ctx: Ctx) -> None:
 
 
 def run(ctx: Ctx) -> None:
-    rule_signed_object(ctx)
-    rule_verify_before_keep(ctx)
-    rule_writers(ctx)
-    rule_wake_all(ctx)
-    rule_content(ctx)
-    rule_wire(ctx)
+    normalised = ctx.repo
+    ctx.repo = _raw_repo(ctx.repo)          # the source as written; the views do their own (exact) inlining
+    try:
+        rule_signed_object(ctx)
+        rule_verify_before_keep(ctx)
+        rule_writers(ctx)
+        rule_wake_all(ctx)
+        rule_content(ctx)
+        rule_wire(ctx)
+    finally:
+        ctx.repo = normalised
     ctx.assume("order independence follows from: acceptance of a token depends only on (signature, parent contained); every waiting child is woken when its parent arrives; "
                "the waiting area does not overflow (stated precondition). It is argued, not enumerated.")
     ctx.assume("signature primitive and sha3_256 are sound (trusted)")
@@ -792,6 +2886,15 @@ WITNESSES = [
     {"name": "gather_token appends without waking the waiting children", "file": TR, "rule": "writers",
      "old": "            self._append_chain_reaction_token(token)\n            return token",
      "new": "            self._append(token)\n            return token"},
+    {"name": "woken token stays in the waiting area unless it is illegal (stale entries use up the bound)", "file": TR, "rule": "wake-all",
+     "old": "            self.unchained.pop(retry_token, None)\n            if self.gather_token(retry_token) is None:\n",
+     "new": "            if self.gather_token(retry_token) is None:\n                self.unchained.pop(retry_token, None)\n"},
+    {"name": "token equality ignores the signature (distinct tokens collide as keys of the waiting area)", "file": SO, "rule": "wake-all",
+     "old": "        return self.get_plaintext_signed() == other.get_plaintext_signed()",
+     "new": "        return self.get_plaintext() == other.get_plaintext()"},
+    {"name": "wake-up appends the waiting children without re-checking them", "file": TR, "rule": "verify-before-keep",
+     "old": "            if self.gather_token(retry_token) is None:\n                self._logger.warning(\"Dropped illegal token %s!\", retry_token)",
+     "new": "            self._append_chain_reaction_token(retry_token)"},
     {"name": "walk verifies only every other token", "file": TR, "rule": "wire-chunks",
      "old": "            current = self.elements[current.previous_token_hash]\n            steps += 1\n        return steps < maxdepth",
      "new": "            current = self.elements[current.previous_token_hash]\n            if current.previous_token_hash in self.elements:\n"
